@@ -12,1057 +12,2515 @@ Definition show_fres (r : fres) : string :=
   end.
 Definition check (rs : list rune) : string := digest (show_fres (format_res rs)).
 Definition full (rs : list rune) : string := show_fres (format_res rs).
-Eval vm_compute in ("<<<M2070>>>" ++ check (runes_of_ascii "packet tag {
-    repeat T MetaDataX,
-    @calculatedFrom(""`tick`"")
-    @tag(007)
-    leftPad `tab	here`,
-    @tag(0123456789)
-    char x,
-    @tag(0)
-    u64 tag,
-    i8 roots,
-    @lengthOf(float)
-    @tag(10)
+Eval vm_compute in ("<<<M1240>>>" ++ check (runes_of_ascii "MetaData calculatedFrom { uint16
+A
+// `tick` ""quote"" 'q'
+//x
+,} packet tag
+    { u64
+    u@lengthOf( u128
+    //x
+    ) , //x
+char[]
+    Pad
+    @lengthOf( crc )
+, i32 options1
+@lengthOf(msg_type ) ,	@rightPad (
+' '	) uint32 int ,	uint32 u128 `crlf
+line` ,
+@tag( 7
+//	t
+// " ++ [27880; 37322]%N ++ runes_of_ascii "
+) float32 //x
+u8x
+, @lengthOf(BodyLength )
+@tag( 1 ) repeat _x `say ""hi""`
+, } root
+    packet u{  @calculatedFrom(""abc"" )match charz	as zchar	{[ // c
+65535,4294967296	,
+10, 3
+    ,
+255 ]
+    :u8x
+    , ""1"" :
+lengthOf  [  0, // packet A { u8 x, }
+4294967296 // 50% %s
+]	:
+T, 007: crc
+    , [ """" , 42 ,7
+    ,
+    ""x y""
+,""1"" , 007, ""x y""
+// @lengthOf(
+// @lengthOf(
+, 255
+] : A
+    ,3
+:
+options1 ,
+},	uint32 // " ++ [128512]%N ++ runes_of_ascii " emoji
+matchKey``
+    ,  match float
+    as charz
+    {
+65535 : Logon [	""CRC32"" , ""\" ++ [233]%N ++ runes_of_ascii """ , ""abc"" , 4294967296,0123456789
+    , 3 ]
+    : o """" :	len
+, [ """ ++ [28040; 24687]%N ++ runes_of_ascii """ ,
+""{,}""  ]
+// c
+// packet A { u8 x, }
+: float
+}
+, zchar //
+trueish ,
+@lengthOf(
+o ) match float as matchKey{	00
+:matchKey/// triple
+} ,
+/// triple
+// `tick` ""quote"" 'q'
+}
+packet string_
+    { @lengthOf( T//	t
+)
+    //	t
+    repeat Header	, @tag(	255 ) @tag(
+    255
+) u64
+crc , @tag(
+    65535
+    )
+@lengthOf(
+    u128	) uint32
+chars ,// packet A { u8 x, }
+} // " ++ [27880; 37322]%N ++ runes_of_ascii "
+packet
+i64_
+{
+i8
+string_ @calculatedFrom(  ""it's"" )
+    , @leftPad (
+' ' )	repeat
+    // a // b
+    Pad
+    {
+repeat MetaDataX {	o packetx , roots Header,match  falsey as roots {  007 : msg_type ,[10 ] : T """"	: Packet
+,
+    42:
+    msg_type , } , string
+string_`say ""hi""` , }
+,
+// trailing space 
+//
+string_ // packet A { u8 x, }
+@calculatedFrom( ""{,}"" ) `doc`,} ,match falsey as u8x { ""\" ++ [233]%N ++ runes_of_ascii """ :metadata 0	:repeatCount,  0123456789 :	repeatCount ,""packet"" :  Foo , 0123456789 :
+tag , } , @lengthOf(
+As )// c
+match
+//	t
+// trailing space 
+A //
+as repeatCount {
+// c
+// @lengthOf(
+42 :a1 , 65535
+: Packet , // packet A { u8 x, }
+7
+:
+len """" :rootA
+    """ ++ [233]%N ++ runes_of_ascii "t" ++ [233]%N ++ runes_of_ascii """
+    :	rootA}
+, @calculatedFrom( ""CRC32"" )
+    repeatCount @calculatedFrom( // a // b
+""`tick`"")// " ++ [128512]%N ++ runes_of_ascii " emoji
+,
+f32
+    crc	``
+    //	t
+    ,
+crc ,	char[] Header
+, } // " ++ [27880; 37322]%N)).
+Eval vm_compute in ("<<<M1322>>>" ++ check (runes_of_ascii "packet  u {
+    @rightPad // @lengthOf(
+( )
+x `{ , }` , uint64 _x ,	options1`doc`
+    ,match falsey as charz {[ 7 ] : int , [ ""\n"" // c
+]
+:
+// " ++ [27880; 37322]%N ++ runes_of_ascii "
+// packet A { u8 x, }
+matchKey , [ ""// no comment"",4294967296 ] // @lengthOf(
+: crc
+, 7 :
+    lengthOf,  00 : Foo }
+, char[ 00 ]
+int @lengthOf( Pad
+)
+    // trailing space 
+    , } packet
+    msg_type
+    {int64
+rootA , x // " ++ [27880; 37322]%N ++ runes_of_ascii "
+{
+len
+@calculatedFrom( ""1"" ),	chars { u8 asx `say ""hi""` ,
+    zchar[7
+//
+// `tick` ""quote"" 'q'
+]
+    x_y_z `tab	here`, char[] f32a `doc`
+, }
+,}
+,
+u64 f32a , @calculatedFrom(
+""a\""b""
+    )@lengthOf( _x
+    )
+@rightPad
+(
+    )a1 metadata `{ , }` , i32 Header  `line1
+line2`
+, match Logon as int{[
+""\n"" , """ ++ [233]%N ++ runes_of_ascii "t" ++ [233]%N ++ runes_of_ascii """ ,
+""it's""// trailing space 
+] :chars ,
+42 :
+    //
+    u8x	,	[
+65535
+    ,
+    ""a\\""
+,255]:
+packetx
+,}
+, match
+    body as len { 4294967296 : Header// `tick` ""quote"" 'q'
+,// trailing space 
+[
+""packet"" ]
+: MetaDataX ,[
+""\" ++ [233]%N ++ runes_of_ascii """ , 007
+    ] : Header	, } , u8 packetx
+    @calculatedFrom( ""it's""	)
+    `two words`
+    ,// 50% %s
+repeat chars{uint8 metadata
+    // 50% %s
+    @lengthOf(
+len)
+,
+    //
+    } ,} root packet i64_
+{ }root packet calculatedFrom { repeat int8	BodyLength `doc`
+,
+// @lengthOf(
+// c
+@lengthOf(
+charz)
+    char[ 1 ]x_y_z@calculatedFrom( ""1"") ,
+@lengthOf(
+trueish
+    // 50% %s
+    ) repeat //x
+zchar[ 10 ] rootA
+, zchar[
     // c
-    // `tick` ""quote"" 'q'
-    body {
-        chars {
-            repeat int8 body,
-        },
-        repeat Header {
-            char[] leftPad,
-        },
-        match Logon as zchar {
-            4294967296 : len,
-            ""a\""b"" : A,
-            //
-            00 : x_y_z,
-        },
-        repeat i16 options1,
-    },
-    @calculatedFrom(""" ++ [128512]%N ++ runes_of_ascii """)
-    @rightPad('0')
-    i16 Pad,//
-    int64 As @lengthOf(crc),
+    4294967296 ] matchKey
+    @calculatedFrom( ""1"") `tab	here`
+    , trueish {
+repeat zchar[
+0123456789
+]
+Z9_ , } ,@lengthOf(x ) repeat options1 `{ , }` ,
+roots Packet ,
+    int16 tag
+    , repeat BodyLength {
+u8x ,
+    float32
+    uint8x @calculatedFrom( ""// no comment"") ,
+    float64  Packet @lengthOf(roots ) , repeat zchar[ 255 ]Foo , } , } options
+{
+    T  =
+""x y""
+// a // b
+//	t
+Logon =char[ 255 ] ; }
+")).
+Eval vm_compute in ("<<<M4414>>>" ++ check (runes_of_ascii "// `tick` ""quote"" 'q'
+
+  MetaData packetx 
+{  u64 string_  ,
 }
 
-MetaData x_y_z {
-    u crc,
+packet
+
+rootA{
+
+leftPad {
+
+    match
+packetx as
+	zchar
+{
+    10
+	:rootA
+
+    007 
+:
+
+Foo
+,
+
+10:
+
+trueish	,  3 
+:	repeatCount
+,}, 
+    // packet A { u8 x, }
+    char[] Packet
+
+    @calculatedFrom( ""CRC32""
+	    // c
+    ) ,
+}
+,	@rightPad  (' ' )
+	chars
+    @lengthOf(
+    zchar )
+    `doc` ,//	t
+packetx
+{match
+	matchKey  as
+	calculatedFrom  {
+    10 :
+asx
+
+,
+    65535
+
+:	pack[
+""{,}""	,
+""\n""	,
+
+    ""1""
+	, 
+007, 65535,
+
+    ""a\""b""	,	4294967296
+]:asx
+	,
+	} ,  string_
+	asx `100% of %d`,
+	}  ,}
+options  
+      // 50% %s
+// a // b
+    {
+tag =true
+;
 }
 
-root packet Z9_ {
-    @calculatedFrom(""{,}"")
-    tag,
-    @lengthOf(lengthOf)
-    zchar[42] crc `" ++ [233]%N ++ runes_of_ascii "`,
-    char[007] options1,
-}
+    packet
 
-packet x {
-    char trueish,
-    char[] packetx @calculatedFrom(""" ++ [28040; 24687]%N ++ runes_of_ascii """) `line1
-    line2`,
-    zchar[1] Foo,
-    zchar[00] A,
-    match msg_type as tag {
-        """" : leftPad,
-        [""" ++ [128512]%N ++ runes_of_ascii """, 0, 10, 3] : Z9_,
-        ""it's"" : float,
-        10 : calculatedFrom,
-        ""x y"" : f32a,
-        007 : roots,
-    },
-}
+    Packet
+	{
+    @lengthOf( 
+i64_)
+u32
+	crc
+	, u16
+    MetaDataX
+`doc` ,	@calculatedFrom(
 
-packet u {
-    // trailing space 
-    @calculatedFrom(""\n"")
-    @calculatedFrom(""a\""b"")
-    i64_ rootA,
-    match x as Logon {
-        1 : body,
-        ""a\\"" : _x,
-        ""packet"" : BodyLength,
-    },
+""// no comment"" )	repeat
+int64
+
+    packetx`line1
+line2`
+    , 
+@leftPad
+    ( 
+' ' 	 //	t
+    ) repeat	BodyLength {
+    char[]As
+,
+char[]
+i64_
+
+@calculatedFrom(
+""it's""
+    ) , i64 
+As
+
+    , Header `it's`
+,  //	t
+
+}
+,
+	@leftPad
+() zchar[
+
+10 ]
+falsey  ,
+
+    // " ++ [27880; 37322]%N ++ runes_of_ascii "
+
+// " ++ [27880; 37322]%N ++ runes_of_ascii "
+  @calculatedFrom(
+    """ ++ [128512]%N ++ runes_of_ascii """
+
+    )pack
+    ,
+
+A
+
+{ repeat 	 //
+  u8x tag,
+int64 T  @lengthOf(  Packet  // @lengthOf(
+    ) //x
+
+,	// packet A { u8 x, }
+	x
+    Logon 
+, options1
+    @calculatedFrom( 
+""a	b"" 
+) ,
+    }
+    ,  @lengthOf( 
+
+//x
+
+	// `tick` ""quote"" 'q'
+	A
+	)  @leftPad	// 50% %s
+  (
+'\x00') 
+zchar[65535]
+MetaDataX
+`// not a comment`,
+    repeat f32
+	Packet`" ++ [233]%N ++ runes_of_ascii "` , } MetaData
+    chars	{
+
+} ")).
+Eval vm_compute in ("<<<M474>>>" ++ check (runes_of_ascii "packet
+Logon {
+string Header `line1
+line2` ,@lengthOf( u )
+    char[] Z9_@calculatedFrom( ""x y"" ) , int @lengthOf( Packet
+    // " ++ [128512]%N ++ runes_of_ascii " emoji
+    )	,	char[ 0] tag  , // a // b
+match crc as
+    int { ["""", 10
+    ]:  pack , [ 42 ,007, 1 // c
+, ""\n"" , """ ++ [28040; 24687]%N ++ runes_of_ascii """]:options1 ,0123456789
+    // " ++ [128512]%N ++ runes_of_ascii " emoji
+    :
+// `tick` ""quote"" 'q'
+// " ++ [128512]%N ++ runes_of_ascii " emoji
+lengthOf
+// `tick` ""quote"" 'q'
+//x
+,  65535
+:
+matchKey
+    """ ++ [128512]%N ++ runes_of_ascii """ : As ,
+    ""\n""  : charz ,} , int8
+    i8i8
+    ,x_y_z @lengthOf( options1 ), //x
+}
+packet int { @lengthOf( BodyLength // @lengthOf(
+)
     //x
-    @rightPad('\x00')
-    @calculatedFrom(""" ++ [128512]%N ++ runes_of_ascii """)
-    repeat stringy {
-        match T as float {
-            ""a\\"" : len,
-            0 : BodyLength,
-            [""it's"", ""{,}"", 255, 0123456789, ""a\\""] : Logon,
-            3 : rootA,
-        },
-    },//
-    u16 uint8x `{ , }`,
+    @calculatedFrom( """"	)  @calculatedFrom(
     // trailing space 
-    //x
-    @leftPad('0')
-    string i64_ @lengthOf(stringy),
-    // `tick` ""quote"" 'q'
-    // @lengthOf(
-    u64 leftPad @calculatedFrom(""a	b""),
-    repeat Header MetaDataX `a\`,
-    @lengthOf(stringy)
-    Packet leftPad,
+    ""// no comment"")repeat char[]leftPad
+// " ++ [128512]%N ++ runes_of_ascii " emoji
+// " ++ [27880; 37322]%N ++ runes_of_ascii "
+`100% of %d`
+    ,
+MetaDataX `
+` ,
+// a // b
+// `tick` ""quote"" 'q'
+repeat i64
+// c
+// `tick` ""quote"" 'q'
+T
+    , //
+repeat float { repeat
+    zchar[ 1] len `// not a comment`  ,// " ++ [128512]%N ++ runes_of_ascii " emoji
+match	Logon
+    //	t
+    as len
+    { [
+    255 ]  : options1 , // trailing space 
+[
+""a\""b"" , ""\" ++ [233]%N ++ runes_of_ascii """ , 0123456789
+,0123456789	,
+// `tick` ""quote"" 'q'
+// c
+7
+]
+:options1
+// " ++ [27880; 37322]%N ++ runes_of_ascii "
+//
+,[ 4294967296 , ""a\""b"" ] : tag
+42 : T
+[
+4294967296,
+""`tick`""] : charz , [ 0 , """ ++ [233]%N ++ runes_of_ascii "t" ++ [233]%N ++ runes_of_ascii """ ] :
+len	}
+, repeat f64 zchar `say ""hi""`
+, repeat i64
+i64_ `// not a comment` , //	t
+} ,
+match u128 as Header	{
+""" ++ [128512]%N ++ runes_of_ascii """:
+x_y_z ""// no comment"" :
+A ,[
+    0
+] : int ,  }, @rightPad( ' ') pack ,}
+")).
+Eval vm_compute in ("<<<M3947>>>" ++ check (runes_of_ascii "packet uint8x {
+    match stringy as lengthOf {
+        00 : roots,
+    },
+    match zchar as body {
+        ""// no comment"" : MetaDataX,
+        [""`tick`"", ""\n""] : i8i8,
+        ""// no comment"" : float,
+        ""x y"" : body,
+    },
     @tag(00)
-    repeat zchar _x `tab	here`,
-    i32 matchKey,
+    f32a @calculatedFrom(""CRC32""),
+    uint32 i8i8,
+    @rightPad(' ')
+    zchar[4294967296] rootA,
+}
+
+packet metadata {
+    // a // b
+    T {
+        u8x {
+            match As as trueish {
+                // packet A { u8 x, }
+                [""\" ++ [233]%N ++ runes_of_ascii """] : Header,
+            },
+            repeat stringy options1,
+            repeat u8x {
+                float32 int @lengthOf(BodyLength) `line1
+                                line2`,
+            },
+            string f32a,
+        },
+        match calculatedFrom as tag {
+            00 : pack,
+        },
+        msg_type {
+            repeat int64 len `it's`,
+            repeat uint64 rootA `" ++ [28040; 24687; 31867; 22411]%N ++ runes_of_ascii "`,//x
+        },
+        match rootA as _x {
+            [""" ++ [28040; 24687]%N ++ runes_of_ascii """, ""{,}""] : metadata,
+        },
+    },
+    @leftPad()
+    u @lengthOf(Header),
+    u16 x `a\`,
+    match string_ as Foo {
+        42 : string_,
+        // trailing space 
+        00 : T,
+    },
+}// c
+
+packet options1 {
 }")).
-Eval vm_compute in ("<<<M377>>>" ++ check (runes_of_ascii "options {
+Eval vm_compute in ("<<<M1406>>>" ++ check (runes_of_ascii "options {
 	StringPrefixLenType = u16;
 	ArrayPrefixLenType = u16;
 }
 
 packet SampleBinary {
-    uint16 MsgType `" ++ [28040; 24687; 31867; 22411]%N ++ runes_of_ascii "`,
-    u16 BodyLenght @lengthOf(Body) `" ++ [28040; 24687; 20307; 38271; 24230]%N ++ runes_of_ascii "`,
-    match MsgType as Body {
-        1 : Logon,
-        2 : Logout,
-        3 : Heartbeat,
-        4 : RiskControlRequest,
-        5 : RiskControlResponse,
-    },
-        @calculatedFrom(""CRC32"")
-    u32 Ckecksum `" ++ [26657; 39564; 21644]%N ++ runes_of_ascii "`,
+	uint16 MsgType `" ++ [28040; 24687; 31867; 22411]%N ++ runes_of_ascii "`,
+	u16 BodyLenght @lengthOf(Body) `" ++ [28040; 24687; 20307; 38271; 24230]%N ++ runes_of_ascii "`,
+	match MsgType as Body {
+		1 : Logon,
+		2 : Logout,
+		3 : Heartbeat,
+		4 : RiskControlRequest,
+		5 : RiskControlResponse,
+	},
+		@calculatedFrom(""CRC32"")
+	u32 Ckecksum `" ++ [26657; 39564; 21644]%N ++ runes_of_ascii "`,
 }
 
 packet Logon {
-     @leftPad('0')
-    char[10] UserName `" ++ [29992; 25143; 21517]%N ++ runes_of_ascii "`,
-    string Password `" ++ [23494; 30721]%N ++ runes_of_ascii "`,
-    uint64 ClientId `" ++ [23458; 25143; 31471]%N ++ runes_of_ascii "ID`,
-    u16 HeartbeatInterval `" ++ [24515; 36339; 38388; 38548]%N ++ runes_of_ascii "`,
+	 @leftPad('0')
+	char[10] UserName `" ++ [29992; 25143; 21517]%N ++ runes_of_ascii "`,
+	string Password `" ++ [23494; 30721]%N ++ runes_of_ascii "`,
+	uint64 ClientId `" ++ [23458; 25143; 31471]%N ++ runes_of_ascii "ID`,
+	u16 HeartbeatInterval `" ++ [24515; 36339; 38388; 38548]%N ++ runes_of_ascii "`,
 }
 
 packet Logout {
-      @rightPad('0')
-    char[10] UserName `" ++ [29992; 25143; 21517]%N ++ runes_of_ascii "`,
-    uint64 ClientId `" ++ [23458; 25143; 31471]%N ++ runes_of_ascii "ID`,
+	  @rightPad('0')
+	char[10] UserName `" ++ [29992; 25143; 21517]%N ++ runes_of_ascii "`,
+	uint64 ClientId `" ++ [23458; 25143; 31471]%N ++ runes_of_ascii "ID`,
 }
 
 packet Heartbeat {
 }
 
 packet RiskControlRequest {
-    string UniqueOrderId `" ++ [21807; 19968; 35746; 21333; 21495]%N ++ runes_of_ascii "`,
-    char[16] ClOrdID `" ++ [23458; 25143; 35746; 21333; 21495]%N ++ runes_of_ascii "`,
-    char[3] MarketID `" ++ [24066; 22330]%N ++ runes_of_ascii "id`,
-    char[12] SecurityID `" ++ [35777; 21048; 20195; 30721]%N ++ runes_of_ascii "`,
-    char Side `" ++ [20080; 21334; 26041; 21521]%N ++ runes_of_ascii "`,
-    char OrderType `" ++ [35746; 21333; 31867; 22411]%N ++ runes_of_ascii "`,
-    u64 Price `" ++ [20215; 26684]%N ++ runes_of_ascii "`,
-    u32 Qty `" ++ [25968; 37327]%N ++ runes_of_ascii "`,
-    repeat string ExtraInfo `" ++ [38468; 21152; 20449; 24687]%N ++ runes_of_ascii "`,
-    repeat SubOrder {
-    		char[16] ClOrdID `" ++ [23376; 35746; 21333; 21495]%N ++ runes_of_ascii "`,
-    		u64 Price `" ++ [23376; 35746; 21333; 20215; 26684]%N ++ runes_of_ascii "`,
-    		u32 Qty `" ++ [23376; 35746; 21333; 25968; 37327]%N ++ runes_of_ascii "`,
-    	},
+	string UniqueOrderId `" ++ [21807; 19968; 35746; 21333; 21495]%N ++ runes_of_ascii "`,
+	char[16] ClOrdID `" ++ [23458; 25143; 35746; 21333; 21495]%N ++ runes_of_ascii "`,
+	char[3] MarketID `" ++ [24066; 22330]%N ++ runes_of_ascii "id`,
+	char[12] SecurityID `" ++ [35777; 21048; 20195; 30721]%N ++ runes_of_ascii "`,
+	char Side `" ++ [20080; 21334; 26041; 21521]%N ++ runes_of_ascii "`,
+	char OrderType `" ++ [35746; 21333; 31867; 22411]%N ++ runes_of_ascii "`,
+	u64 Price `" ++ [20215; 26684]%N ++ runes_of_ascii "`,
+	u32 Qty `" ++ [25968; 37327]%N ++ runes_of_ascii "`,
+	repeat string ExtraInfo `" ++ [38468; 21152; 20449; 24687]%N ++ runes_of_ascii "`,
+	repeat SubOrder {
+			char[16] ClOrdID `" ++ [23376; 35746; 21333; 21495]%N ++ runes_of_ascii "`,
+			u64 Price `" ++ [23376; 35746; 21333; 20215; 26684]%N ++ runes_of_ascii "`,
+			u32 Qty `" ++ [23376; 35746; 21333; 25968; 37327]%N ++ runes_of_ascii "`,
+		},
 }
 
 packet RiskControlResponse {
-    string UniqueOrderId `" ++ [21807; 19968; 35746; 21333; 21495]%N ++ runes_of_ascii "`,
-    i32 Status `" ++ [29366; 24577]%N ++ runes_of_ascii "`,
-    string Msg `" ++ [32467; 26524; 20449; 24687]%N ++ runes_of_ascii "`,
-    repeat Detail,
+	string UniqueOrderId `" ++ [21807; 19968; 35746; 21333; 21495]%N ++ runes_of_ascii "`,
+	i32 Status `" ++ [29366; 24577]%N ++ runes_of_ascii "`,
+	string Msg `" ++ [32467; 26524; 20449; 24687]%N ++ runes_of_ascii "`,
+	repeat Detail,
 }
 
 packet Detail {
-    string RuleName `" ++ [35268; 21017; 21517; 31216]%N ++ runes_of_ascii "`,
-    u16 Code `" ++ [21407; 22240; 20195; 30721]%N ++ runes_of_ascii "`,
+	string RuleName `" ++ [35268; 21017; 21517; 31216]%N ++ runes_of_ascii "`,
+	u16 Code `" ++ [21407; 22240; 20195; 30721]%N ++ runes_of_ascii "`,
 }")).
-Eval vm_compute in ("<<<M2129>>>" ++ check (runes_of_ascii "//x
-packet
-	u8x
-{@lengthOf(
-As
-)  repeat
-char[  // c
-	4294967296
-
-    ] int`{ , }`,repeat 
-	// " ++ [128512]%N ++ runes_of_ascii " emoji
-    	int8
-	len  `two words`
-, } root packet
-	tag	// a // b
-	{
+Eval vm_compute in ("<<<M4151>>>" ++ check (runes_of_ascii "root packet x {
 }
 
-root
-    packet 
-rootA{o @calculatedFrom( """" )
+packet trueish {
+    @rightPad(' ')
+    repeat u16 As `tab	here`,
+}
 
-, leftPad i64_ `it's` 
-    // a // b
-  // packet A { u8 x, }
-,	// " ++ [27880; 37322]%N ++ runes_of_ascii "
-    @tag( 
-7)
-    float
-
-,
-	int32 x_y_z
-
-    ,
-
-    repeat  roots
-{
-	zchar[ 10	]
-
-a1
-,  f32a	options1 `crlf
-line`,
-    match
-
-_x
-    // @lengthOf(
-as	zchar{  1	:u8x 
-,
-""// no comment"":	float 
-,
-
-    [4294967296
-    ,10	,
-""" ++ [233]%N ++ runes_of_ascii "t" ++ [233]%N ++ runes_of_ascii """
-
-    ,""" ++ [28040; 24687]%N ++ runes_of_ascii """,
-    1
-	]
-	:
-u128 	 // trailing space 
-    ,
-    [""\" ++ [233]%N ++ runes_of_ascii """ ,  //x
-      42// " ++ [128512]%N ++ runes_of_ascii " emoji
-  ]
-	:stringy
-,
-
-[
-
-    1  // " ++ [27880; 37322]%N ++ runes_of_ascii "
-	,	""\n""]: falsey 
-    // a // b
-,
-
-},string 
-charz @calculatedFrom("""" )
-,} ,  char[]
-	options1
-    `
-`
-
-    , 
-//	t
-	/// triple
-      u8x
-    {  repeat msg_type
-matchKey `u8 x,` 
-,  }
-
-, A
-
-    @lengthOf( //x
-	pack )//	t
-,
-
-i64
-    stringy , }packet
-    i8i8 
-{
-
-i64_
-	u128
-	, @lengthOf(u8x 	 //
-    	)repeat
-
-float64
-	f32a	,	@calculatedFrom(
-
-""`tick`"" )
-pack
-
-    `" ++ [233]%N ++ runes_of_ascii "`, uint64 Z9_@calculatedFrom(
-
-"""" 
-)  `tab	here`
-
-,} ")).
-Eval vm_compute in ("<<<M1588>>>" ++ check (runes_of_ascii "root packet Foo {
-    Packet {
-        u32 chars `{ , }`,
-        zchar[255] Foo,
+root packet Packet {
+    falsey @calculatedFrom(""" ++ [28040; 24687]%N ++ runes_of_ascii """),
+    @lengthOf(u128)
+    repeat zchar[42] calculatedFrom `it's`,
+    u64 options1 @lengthOf(repeatCount),
+    @rightPad(' ')
+    @calculatedFrom(""x y"")
+    @rightPad('\x00')
+    msg_type {
+        string A @calculatedFrom(""`tick`""),
+        i16 Pad @calculatedFrom(""" ++ [233]%N ++ runes_of_ascii "t" ++ [233]%N ++ runes_of_ascii """) `line1
+                line2`,
+        float64 roots @lengthOf(body),
     },
-    f32a @lengthOf(MetaDataX) `doc`,
-    As `say ""hi""`,
-    char[] crc @calculatedFrom(""" ++ [28040; 24687]%N ++ runes_of_ascii """) `say ""hi""`,
-    int32 T `// not a comment`,
-    @lengthOf(x)
-    //
-    pack {
-        match i8i8 as trueish {
-            ""x y"" : BodyLength,
-            [
-                ""\n"", 007, ""// no comment"", 42, ""1"",
-                65535, 10
-            ] : a1,
-            [""{,}""] : metadata,
-            ""a	b"" : As,
+    @tag(007)
+    f32 BodyLength @lengthOf(float),
+    Pad Foo,
+    char[] chars `it's`,
+    @calculatedFrom(""" ++ [233]%N ++ runes_of_ascii "t" ++ [233]%N ++ runes_of_ascii """)
+    Pad {
+        repeat BodyLength uint8x,
+        match Pad as Foo {
+            ""packet"" : i64_,
+            [4294967296, ""{,}""] : BodyLength,
+            10 : repeatCount,
+            [0123456789, 3, 42, ""\n"", ""x y""] : Logon,
+            [10, ""`tick`"", 0123456789] : tag,
+            42 : trueish,
         },
+        repeat zchar[4294967296] Foo `it's`,
     },
-    match f32a as A {
-        ""abc"" : rootA,
-        4294967296 : Z9_,
-        [
-            007, ""a\""b"", 00, 42, 1,
-            0123456789, ""x y""
-        ] : Foo,
+}
+
+packet float {
+    @tag(1)
+    u64 options1 @calculatedFrom(""a\""b""),
+}")).
+Eval vm_compute in ("<<<M1105>>>" ++ check (runes_of_ascii "packet uint8x { @calculatedFrom( ""a	b"" ) zchar[
+42 ]Header
+@calculatedFrom( ""1"" )
+    ,
+    zchar[
+10 ] f32a
+    ,@calculatedFrom(
+""it's"" )f64 // trailing space 
+i8i8 , @tag(
+    /// triple
+    0123456789 )
+repeat int8 u128
+    ,
+    string
+crc ,
+    //	t
+    @tag(
+    // a // b
+    1 ) @calculatedFrom(	""a	b""
+    ) @lengthOf(
+    // trailing space 
+    Packet	)
+    o `" ++ [233]%N ++ runes_of_ascii "`
+,
+    i64  i64_
+, zchar[ // c
+4294967296// 50% %s
+]len , string_ , // " ++ [27880; 37322]%N ++ runes_of_ascii "
+repeat int16 matchKey , }	options {
+crc	= '\x00'// c
+} options  { packetx
+    = ""it's"";
+    // @lengthOf(
+    charz =
+    true	options1
+    =
+""a\\""
+;
+leftPad =true uint8x
+=string	;
+// a // b
+// c
+} options
+    {
+Packet
+    =
+//
+// " ++ [27880; 37322]%N ++ runes_of_ascii "
+""1"" // packet A { u8 x, }
+}
+    /// triple
+    packet /// triple
+u128{// " ++ [27880; 37322]%N ++ runes_of_ascii "
+@tag( 3 )@tag( 42 ) BodyLength
+    @lengthOf(
+Foo ) `tab	here`
+,
+char[ 007 ] a1 `two words`,repeat
+x_y_z	falsey `u8 x,` ,u16 options1 ,zchar[ 10 ] _x ,
+match i8i8 as options1 {
+3 : msg_type 65535:
+Pad , }
+    // a // b
+    , }
+")).
+Eval vm_compute in ("<<<M1203>>>" ++ check (runes_of_ascii "packet T {//
+@leftPad	(
+'0' )charz
+    // " ++ [27880; 37322]%N ++ runes_of_ascii "
+    `line1
+line2` ,
+}packet options1 // packet A { u8 x, }
+{
+} // c
+root packet leftPad { @tag(
+7
+)
+repeat string  falsey
+    ,
+@tag(
+    // `tick` ""quote"" 'q'
+    00)
+    char[]
+    uint8x ,
+    @rightPad( )
+    match i64_ as _x { 1: falsey
+} , char[
+// packet A { u8 x, }
+// `tick` ""quote"" 'q'
+0123456789
+    ]
+    // trailing space 
+    Z9_ ,
+@lengthOf(tag
+)
+    repeat // c
+int  , char[ // trailing space 
+10]
+o ,
+    uint64
+    msg_type @calculatedFrom( ""1"" ) // `tick` ""quote"" 'q'
+`{ , }` , char[] stringy @calculatedFrom(
+""it's""
+),// " ++ [27880; 37322]%N ++ runes_of_ascii "
+uint8 tag , // a // b
+u32
+    crc @calculatedFrom(""a\\"" ) ,  }
+MetaData  A {
+x_y_z
+    string_ `u8 x,` , } packet  roots // `tick` ""quote"" 'q'
+{Pad { float32
+lengthOf `
+` , repeat
+f64 MetaDataX
+// trailing space 
+// `tick` ""quote"" 'q'
+, char[ 65535  ] u
+    `
+` ,
+}
+, repeat
+char[] i64_ ,
+int32 charz
+    @lengthOf(
+    // " ++ [27880; 37322]%N ++ runes_of_ascii "
+    A ) , }
+")).
+Eval vm_compute in ("<<<M322>>>" ++ check (runes_of_ascii "root// a // b
+packet // " ++ [128512]%N ++ runes_of_ascii " emoji
+metadata
+{repeat float32 roots
+    , repeat
+    string //x
+asx ,
+    string
+// " ++ [27880; 37322]%N ++ runes_of_ascii "
+//	t
+roots @lengthOf(
+As ) , char[
+    // `tick` ""quote"" 'q'
+    10 ] crc @lengthOf( roots ) `{ , }`, i64 Logon  @calculatedFrom( ""{,}""
+)  , i16 // trailing space 
+options1
+@calculatedFrom( ""CRC32""	),
+@calculatedFrom( ""abc""
+    )@calculatedFrom(
+""" ++ [233]%N ++ runes_of_ascii "t" ++ [233]%N ++ runes_of_ascii """)
+    zchar[ 65535 ] matchKey
+, @rightPad
+/// triple
+// trailing space 
+('0' )	repeat matchKey`u8 x,` , repeat  len ,
+} options{ pack = ' '
+; u8x  =char[7];
+    i64_= true; calculatedFrom = true
+// packet A { u8 x, }
+// " ++ [128512]%N ++ runes_of_ascii " emoji
+; } root
+// packet A { u8 x, }
+// `tick` ""quote"" 'q'
+packet rootA{
+    @calculatedFrom(
+    // c
+    ""a\""b"" )@rightPad //
+( '\x00' ) @calculatedFrom(""a\""b""
+) char[] Pad ,
+    } MetaData  i64_ {u64
+    matchKey
+    ,int64 Foo ,
+    char[
+    0123456789]
+    BodyLength
+    `
+` , tag crc ,
+}")).
+Eval vm_compute in ("<<<M1130>>>" ++ check (runes_of_ascii "
+packet	u {match Z9_ as
+Z9_ { 7 :  packetx ,	}// packet A { u8 x, }
+, uint8x `// not a comment`
+    , @lengthOf(
+    // @lengthOf(
+    x ) pack `line1
+line2` ,
+@tag( 65535) x_y_z `a\` , float32 tag `100% of %d`	, leftPad
+leftPad , @calculatedFrom( ""CRC32"" ) @rightPad( ' ') string x
+// " ++ [27880; 37322]%N ++ runes_of_ascii "
+// " ++ [128512]%N ++ runes_of_ascii " emoji
+, // " ++ [128512]%N ++ runes_of_ascii " emoji
+@leftPad  ( ' '
+)i8
+// `tick` ""quote"" 'q'
+// packet A { u8 x, }
+T @lengthOf(
+    Z9_ ) ,packetx
+    @calculatedFrom(
+    ""packet""
+)
+    , }
+    options	{u8x=  007 ; x_y_z=
+    ""a	b"" ; }
+packet
+falsey {
+    @lengthOf( int ) @calculatedFrom(
+    ""// no comment"" ) @calculatedFrom(""" ++ [28040; 24687]%N ++ runes_of_ascii """
+)
+    // @lengthOf(
+    zchar[ 4294967296//
+] //	t
+u , int8 BodyLength @lengthOf(
+f32a )
+,
+    @tag(	4294967296 )	uint16  calculatedFrom `doc` , float32
+    As ,
+}packet tag
+{ } packet	leftPad {@rightPad
+    ( )
+repeat
+    char[ 42 ]i8i8 , } 	 ")).
+Eval vm_compute in ("<<<M4040>>>" ++ check (runes_of_ascii "options {
+    LittleEndian = true;
+    StringPrefixLenType = u32;
+    ArrayPrefixLenType = u32;
+    FixedStringPadChar = ' ';
+}
+
+packet Party {
+    char[12] tag7,
+    repeat InMsgkind99 {
+        repeat i32 Side2,
+        repeat char[6] Qty,
+        zchar[6] Ref,
+        zchar[8] Px,
+        i64 msgKind,
+        uint64 lastPx,
     },
-    char[7] i64_ `it's`,
-    @lengthOf(pack)
-    repeat As,
 }
 
-MetaData charz {
-    u64 asx,
-}
-
-packet x {
-}
-
-MetaData MetaDataX {
-    A a1,
-    char[] x `a\`,
-    uint16 leftPad,
+root packet Trade {
+    repeat InTag752 {
+        Party,
+        zchar[8] venue,
+        repeat InFlags40 {
+            zchar[6] sym,
+        },
+        repeat InCount33 {
+            zchar[8] Qty,
+            int64 venue,
+            u64 Acct,
+            u16 OrderId,
+        },
+        repeat InSeqno96 {
+            repeat Party,
+            f64 msgKind,
+        },
+        f32 Px,
+    },
+    u8 venue,
+    match venue as Body {
+        0 : Party,
+    },
+}")).
+Eval vm_compute in ("<<<M3604>>>" ++ check (runes_of_ascii "packet uint8x {
+    match MetaDataX as T {
+        0123456789 : options1,
+    },
+    zchar[255] x_y_z,
+    @lengthOf(Logon)
+    char[255] x `" ++ [233]%N ++ runes_of_ascii "`,
+    match Logon as pack {
+        ""packet"" : tag,
+    },
+    int @calculatedFrom(""" ++ [233]%N ++ runes_of_ascii "t" ++ [233]%N ++ runes_of_ascii """) `" ++ [28040; 24687; 31867; 22411]%N ++ runes_of_ascii "`,
+    char[255] trueish @calculatedFrom(""a\""b""),
+    zchar,
 }
 
 options {
-    a1 = 42;
-    BodyLength = true;
-    x_y_z = int16
+    a1 = zchar[7];
+    //	t
+    // packet A { u8 x, }
+}
+
+options {
+}
+
+options {
+    //x
+    matchKey = ""it's"";
+}
+
+packet calculatedFrom {
+    char[] u8x @calculatedFrom(""" ++ [233]%N ++ runes_of_ascii "t" ++ [233]%N ++ runes_of_ascii """),
+    @tag(0123456789)
+    @tag(4294967296)
+    int64 a1,
+    @lengthOf(stringy)
+    As,
+    @lengthOf(pack)
+    u16 u128 @calculatedFrom(""a	b"") `u8 x,`,
+    MetaDataX @lengthOf(u8x) `crlf
+        line`,
+    @tag(0)
+    repeat charz,
+    float @lengthOf(As) `{ , }`,
+}
+// 50% %s")).
+Eval vm_compute in ("<<<M1112>>>" ++ check (runes_of_ascii "packet x_y_z
+    //	t
+    {
+// packet A { u8 x, }
+/// triple
+_x , repeat float , @tag(
+1) match Foo
+    as rootA
+{	[
+255 ]
+    : options1
+    ,
+    [ ""a\\"" ]	:
+    /// triple
+    leftPad , } ,@lengthOf( len) match
+    o as  Z9_ {
+    7: As ,
+    ""x y"" : matchKey // `tick` ""quote"" 'q'
+""// no comment"" : u128 , [
+// @lengthOf(
+// `tick` ""quote"" 'q'
+0 , 255]:	len , ""CRC32"" :	metadata 3 : chars ,
+} ,u64
+roots `say ""hi""`
+    ,
+    @tag(
+42
+)
+string int@lengthOf( Header ), @tag( 1 )@lengthOf(
+float
+    )
+    // packet A { u8 x, }
+    rootA Z9_, match	msg_type as metadata{
+[ 7 , 0123456789 ] :uint8x
+//x
+// a // b
+, [255 ] : int
+,
+    // packet A { u8 x, }
+    255 :lengthOf , ""a\\""	: u128 /// triple
+, ""1""	: u128 , },}
+// `tick` ""quote"" 'q'
+")).
+Eval vm_compute in ("<<<M4372>>>" ++ check (runes_of_ascii "
+
+  options { i8i8
+
+    =
+    ""1"" u
+=
+""a	b""  //x
+	;
+
+a1
+=
+zchar[	00
+// @lengthOf(
+
+]
+; 
+        // c
+  o=
+	""a	b""  ;
+	float
+
+    =
+    char[] 	 // a // b
+;	}  root packet	chars{
+}
+
+    packet 
+body // `tick` ""quote"" 'q'
+
+  {	repeat u8x
+
+{ int16
+	zchar,
+
+char[1
+	]o `" ++ [233]%N ++ runes_of_ascii "`
+    ,
+
+}  ,
+}  packet	BodyLength	{
+
+// c
+@rightPad
+    ( '0'
+    ) u16 u8x
+@calculatedFrom(
+""// no comment""
+    ) ,
+@tag(
+1 ) 
+    // a // b
+// " ++ [128512]%N ++ runes_of_ascii " emoji
+	  match
+    i8i8 
+as u128 
+{  007
+
+:
+	len
+	,
+    """ ++ [128512]%N ++ runes_of_ascii """
+:
+
+u128 
+,
+},
+
+repeat
+    repeatCount// " ++ [128512]%N ++ runes_of_ascii " emoji
+`u8 x,`,	@calculatedFrom(// c
+  ""x y""
+	)falsey
+
+    {
+char[ 255	] crc ,
+Logon
+    `two words`,  roots  options1
+
+    ,	}
+    , 
+} root
+    packet  calculatedFrom {}")).
+Eval vm_compute in ("<<<M4178>>>" ++ check (runes_of_ascii "MetaData lengthOf {
+    uint32 charz `100% of %d`,
+}
+
+packet zchar {
+    @calculatedFrom(""x y"")
+    match As as As {
+        [7, """ ++ [128512]%N ++ runes_of_ascii """] : lengthOf,
+        ["""", 007, 3, 42, ""\n""] : Packet,
+        //x
+    },
+    @leftPad()
+    @tag(42)
+    zchar,
+    @lengthOf(x)
+    uint16 crc @lengthOf(lengthOf) `u8 x,`,
+    Foo {
+        repeat packetx,
+        zchar[3] chars @lengthOf(tag),
+        string chars @calculatedFrom(""abc"") `a\`,
+    },
+    @rightPad('0')
+    Logon {
+        // " ++ [128512]%N ++ runes_of_ascii " emoji
+        // " ++ [27880; 37322]%N ++ runes_of_ascii "
+        int16 leftPad @calculatedFrom(""""),
+        Foo @calculatedFrom(""\" ++ [233]%N ++ runes_of_ascii """),
+        // 50% %s
+        // @lengthOf(
+        int16 len `u8 x,`,
+    },
+}
+
+MetaData matchKey {
 }")).
-Eval vm_compute in ("<<<M206>>>" ++ check (runes_of_ascii "options{ }root // a // b
+Eval vm_compute in ("<<<M4113>>>" ++ check (runes_of_ascii "packet packetx {
+    // `tick` ""quote"" 'q'
+    match Pad as roots {
+        10 : body,
+        0 : Z9_,
+        42 : Logon,
+        00 : tag,
+        """ ++ [28040; 24687]%N ++ runes_of_ascii """ : pack,
+    },
+    @calculatedFrom(""{,}"")
+    i64 Z9_,
+    string u @lengthOf(metadata),
+    @tag(0123456789)
+    BodyLength u `{ , }`,
+    @rightPad()
+    msg_type @lengthOf(T),
+    // @lengthOf(
+}
+
+/// triple
+/// triple
+packet Logon {
+    @rightPad('\x00')
+    repeat int16 metadata,
+    @tag(42)
+    chars Pad,
+    @calculatedFrom(""" ++ [233]%N ++ runes_of_ascii "t" ++ [233]%N ++ runes_of_ascii """)
+    repeat A Pad `line1
+    line2`,
+    @lengthOf(T)
+    char[] Pad,
+    //	t
+    // `tick` ""quote"" 'q'
+    len @lengthOf(int),
+    string Foo,
+}
+
+options {
+}")).
+Eval vm_compute in ("<<<M572>>>" ++ check (runes_of_ascii "//x
+root packet
+int {metadata @lengthOf( MetaDataX// `tick` ""quote"" 'q'
+) , char[]x_y_z @calculatedFrom( """ ++ [128512]%N ++ runes_of_ascii """ )
+    // a // b
+    , matchKey@calculatedFrom( """" )`` , uint32 Logon @lengthOf(stringy// a // b
+) `
+` ,// 50% %s
+repeat float
+    , string A
+`{ , }` ,
+    @calculatedFrom( ""{,}""
+)  match matchKey
+as leftPad {	[ ""\n"" , 42
+    ,
+""" ++ [128512]%N ++ runes_of_ascii """ ,// trailing space 
+""a	b"" ,
+""1"" ,
+""{,}""
+    ] :
+// " ++ [27880; 37322]%N ++ runes_of_ascii "
+// packet A { u8 x, }
+stringy // c
+,}
+,	float64
+    // " ++ [128512]%N ++ runes_of_ascii " emoji
+    Logon , } options //
+{ pack =' ' ;
+options1
+=
+    //x
+    3 ; // a // b
+matchKey
+=true ;  o = i32 }
+root
+packet stringy {
+string _x
+    ,} packet MetaDataX {//	t
+}")).
+Eval vm_compute in ("<<<M3678>>>" ++ check (runes_of_ascii "packet asx {
+    @calculatedFrom(""CRC32"")
+    u32 matchKey,
+    repeat string body,
+}
+
+MetaData roots {
+    _x matchKey,
+    lengthOf i8i8 `doc`,
+    i16 pack,
+    uint8 i64_,
+    zchar[7] i8i8,
+    i64_ body `
+    `,
+}
+
+packet u8x {
+    @lengthOf(msg_type)
+    uint8x @calculatedFrom(""a\""b"") `line1
+    line2`,
+    char[10] calculatedFrom,
+    @tag(3)
+    @lengthOf(packetx)
+    @calculatedFrom(""it's"")
+    zchar[00] T @lengthOf(crc),
+    match f32a as Logon {
+        ""abc"" : BodyLength,
+        [0, 42] : Header,
+        007 : Z9_,
+        ""a\""b"" : chars,
+        // packet A { u8 x, }
+        //
+    },
+}")).
+Eval vm_compute in ("<<<M573>>>" ++ check (runes_of_ascii "packet u128 {  zchar[ 0123456789]MetaDataX @calculatedFrom(
+    // packet A { u8 x, }
+    """ ++ [28040; 24687]%N ++ runes_of_ascii """
+    ) `100% of %d`
+    // " ++ [128512]%N ++ runes_of_ascii " emoji
+    ,x MetaDataX , repeat
+    //	t
+    i64_
+packetx
+    // @lengthOf(
+    `" ++ [233]%N ++ runes_of_ascii "` /// triple
+, zchar[42 ]trueish `" ++ [233]%N ++ runes_of_ascii "`,
+// 50% %s
+// @lengthOf(
+} packet trueish { trueish
+    @calculatedFrom( ""it's"") `say ""hi""` ,
+string float @calculatedFrom( ""\" ++ [233]%N ++ runes_of_ascii """	) // @lengthOf(
+, @tag(
+42
+    )
+    repeatCount	{
+    match
+MetaDataX as
+    // " ++ [27880; 37322]%N ++ runes_of_ascii "
+    Header { ""`tick`"" : As
+    // trailing space 
+    , } ,
+MetaDataX {pack msg_type
+    , }, string falsey  , } , } // 50% %s")).
+Eval vm_compute in ("<<<M4420>>>" ++ check (runes_of_ascii "
+packet crc
+{//
+	match 
+uint8x as 
+x{
+
+    0:
+
+charz
+
+[0123456789  ,  00,65535 ,
+
+    //x
+	  ""abc""  
+      //
+  // c
+    ,
+    // " ++ [128512]%N ++ runes_of_ascii " emoji
+    //	t
+	10, 42,""`tick`""
+
+    ,
+00 ]//
+    :
+
+    // packet A { u8 x, }
+	// c
+    crc,
+[ ""{,}""  ] 
+: tag
+	, 
+""abc"" :len
+, ""`tick`"" 	 /// triple
+  : 
+int  }
+
+,
+}
+	packet
+
+u { string 
+// a // b
+  	// " ++ [27880; 37322]%N ++ runes_of_ascii "
+	Header 
+, @calculatedFrom(""" ++ [233]%N ++ runes_of_ascii "t" ++ [233]%N ++ runes_of_ascii """ ) repeat	int
+Z9_
+
+    , @calculatedFrom(""// no comment"" 
+)
+
+    float32  // trailing space 
+  uint8x `u8 x,`  ,  Foo@calculatedFrom( 	 // " ++ [128512]%N ++ runes_of_ascii " emoji
+
+	""a\\"" )`
+`
+
+    ,
+	}
+")).
+Eval vm_compute in ("<<<M3320>>>" ++ check (runes_of_ascii "// top
+packet // c0
+MetaDataX // c1
+{ // c2
+} // c3
+root // c4
+packet // c5
+len // c6
+{ // c7
+zchar[ // c8
+7 // c9
+] // c10
+matchKey // c11
+@lengthOf( // c12
+BodyLength // c13
+) // c14
+, // c15
+BodyLength // c16
+`// not a comment` // c17
+, // c18
+match // c19
+u8x // c20
+as // c21
+i8i8 // c22
+{ // c23
+""a\""b"" // c24
+: // c25
+stringy // c26
+, // c27
+[ // c28
+""`tick`"" // c29
+] // c30
+: // c31
+u8x // c32
+0123456789 // c33
+: // c34
+options1 // c35
+, // c36
+[ // c37
+""`tick`"" // c38
+] // c39
+: // c40
+x_y_z // c41
+} // c42
+, // c43
+} // c44
+")).
+Eval vm_compute in ("<<<M669>>>" ++ check (runes_of_ascii "packet  x
+{@lengthOf(
+    x ) repeat char[] chars `{ , }` , } root packet MetaDataX{ u128 @calculatedFrom( ""{,}""
+// packet A { u8 x, }
+// trailing space 
+) , repeat
+    char[] Logon `tab	here`
+,	x_y_z {uint32
+MetaDataX @calculatedFrom( ""a\\""  ),  }, // `tick` ""quote"" 'q'
+i64 Pad
+    //	t
+    `a\`, } packet rootA { repeat MetaDataX
+tag `" ++ [28040; 24687; 31867; 22411]%N ++ runes_of_ascii "` , repeat u8x charz,
+    @calculatedFrom( ""CRC32"" ) falsey { uint32 Foo, repeat float64 uint8x,a1
+@lengthOf( string_
+) // trailing space 
+,  } , // `tick` ""quote"" 'q'
+}
+")).
+Eval vm_compute in ("<<<M1068>>>" ++ check (runes_of_ascii "packet A
+{	}
+    packet u128
+    {match Pad as asx{ 1 : repeatCount , 255
+    :As 4294967296
+//	t
+// " ++ [128512]%N ++ runes_of_ascii " emoji
+:  falsey, [// " ++ [27880; 37322]%N ++ runes_of_ascii "
+""a	b"" ] :
+float , ""1""
+    :
+    msg_type,	[7,
+""a\\"" ,  ""a\\""  ,255 ,	4294967296 ,
+    3 ,  007
+] :string_ , } ,@tag(0) match lengthOf as // " ++ [128512]%N ++ runes_of_ascii " emoji
+options1// c
+{
+[
+""it's"" // packet A { u8 x, }
+]// " ++ [27880; 37322]%N ++ runes_of_ascii "
+: float
+,	7:	Foo  [
+""{,}""
+] : packetx , },  @tag(
+007 )char[ 00
+// packet A { u8 x, }
+/// triple
+] x_y_z @calculatedFrom( ""`tick`"" ), repeat u8 i8i8 `doc` , }")).
+Eval vm_compute in ("<<<M1194>>>" ++ check (runes_of_ascii "root packet MetaDataX {
+/// triple
+//
+repeat f64 chars
+`// not a comment` , @tag( 4294967296 ) Pad
+,
+    u8  body,// `tick` ""quote"" 'q'
+u // c
+@lengthOf( i8i8	) `line1
+line2` , /// triple
+@lengthOf(
+int)
+@lengthOf(
+    pack )u ,	@tag(00)	repeat// a // b
+f32 crc `tab	here`
+    ,match body as
+    i64_ { // c
+0
+    : A ,
+    7 :a1 ,
+} , @calculatedFrom( ""`tick`"" )	@calculatedFrom( //x
+""a	b"" )	char[
+65535 ] asx
+@calculatedFrom(""" ++ [233]%N ++ runes_of_ascii "t" ++ [233]%N ++ runes_of_ascii """)`two words` // " ++ [128512]%N ++ runes_of_ascii " emoji
+, }
+")).
+Eval vm_compute in ("<<<M1349>>>" ++ check (runes_of_ascii "//	t
+packet int	{ chars falsey`u8 x,`	,char[ 3 // `tick` ""quote"" 'q'
+] asx
+@lengthOf(string_ ) `say ""hi""`, @calculatedFrom(
+""" ++ [128512]%N ++ runes_of_ascii """ )
+u64 x_y_z `line1
+line2`
+    ,
+} packet leftPad { @calculatedFrom(
+    //
+    ""it's""	)
+uint8 chars
+    `two words`,@calculatedFrom(""CRC32""
+) @lengthOf(
+    o)repeat char[4294967296] x/// triple
+,@calculatedFrom(""CRC32""
+) float64 Packet `it's` , @tag(	65535 )
+char[]f32a @calculatedFrom( ""x y"" ) `doc`  ,// c
+} 	 ")).
+Eval vm_compute in ("<<<M3474>>>" ++ check (runes_of_ascii "
+options
+    {	LittleEndian
+
+=
+    false ;  StringPrefixLenType  =
+
+    u16
+
+;  ArrayPrefixLenType
+    =	u32
+    ;	FixedStringPadChar
+    = '0' ; }
+	packet	Leg 
+{
+
+char[]  OrderId
+
+    , 
+repeat
+
+InFlags49
+{float32
+	Tail  ,} 
+,
+    }root
+
 packet
-    uint8x {  @tag( 3 ) @lengthOf(  falsey ) lengthOf @calculatedFrom(
-""`tick`"" ), A { i8 msg_type
+
+    Heartbeat{
+
+char[]Px ,
+	f32 Side2 
+, 
+repeat 
+Leg , char[] 
+Flags
+,u32 Acct,u32 seqNo
+
+    @lengthOf( Body )
+	,match
+Acct	as Body{ [
+165
+    ,
+	21]  : Leg ,}
+,}
+")).
+Eval vm_compute in ("<<<M4189>>>" ++ check (runes_of_ascii "  MetaData
+u8x {u32 metadata	,
+	} // packet A { u8 x, }
+  MetaData
+
+    calculatedFrom
+    // trailing space 
+
+	{
+	calculatedFrom repeatCount`// not a comment` 
+,
+    roots 	 // 50% %s
+	options1 
+,
+zchar[	1
+
+    ]i8i8 ,// `tick` ""quote"" 'q'
+  zchar[0123456789 ]
+i8i8 ,i64 charz ,
+
+u8 f32a
+,}
+	packet	string_	// c
+	{ /// triple
+
+	@calculatedFrom( ""\" ++ [233]%N ++ runes_of_ascii """
+    )
+repeat stringy
+
+    `it's`
+
+    , }
+")).
+Eval vm_compute in ("<<<M135>>>" ++ check (runes_of_ascii "MetaData//
+uint8x { } packet
+BodyLength{ @calculatedFrom( ""{,}"" ) zchar // packet A { u8 x, }
+body ,
+char // a // b
+a1 `tab	here`	, match
+    matchKey as rootA { 0123456789
+    :float
+    }, match packetx as	calculatedFrom {
+    42//	t
+: x_y_z , } ,
+    } packet pack	{
+    // " ++ [128512]%N ++ runes_of_ascii " emoji
+    string// packet A { u8 x, }
+x_y_z
+    ,
+    @calculatedFrom( ""a\\"" // " ++ [27880; 37322]%N ++ runes_of_ascii "
+) repeat
+u Foo
+`` , //	t
+}
+")).
+Eval vm_compute in ("<<<M364>>>" ++ check (runes_of_ascii "root
+packet //x
+pack
+{ match matchKey //	t
+as
+int // @lengthOf(
+{ 00 : metadata
+    ,
+    ""a\\""
+    : o ,
+""// no comment"" :// `tick` ""quote"" 'q'
+x ,
+[
+""packet""] : A
+, [ ""\n"",0123456789 , 00 , ""// no comment"" ,007 ,
+255,
+1 ,// c
+0 ]
+    // a // b
+    : metadata ,[ 00] : Pad ,} , } // @lengthOf(
+MetaData tag
+{uint64 i64_`` ,
+    } packet BodyLength { repeat
+u32
+u128 , }
+")).
+Eval vm_compute in ("<<<M665>>>" ++ check (runes_of_ascii "packet T { @lengthOf(
+len ) match	crc as
+    string_
+{10	:
+Pad
+, // " ++ [128512]%N ++ runes_of_ascii " emoji
+7 :
+    _x , 7 //x
+:
+stringy ,// c
+} ,
+o
+@calculatedFrom(""a\""b"" )`two words`
+, match Foo
+as options1 { [ ""// no comment""] : metadata// trailing space 
+, }, @rightPad ( '\x00' ) repeat o
+    i8i8 ,rootA
+    // `tick` ""quote"" 'q'
+    , } options { A  =
+65535
+} // trailing space ")).
+Eval vm_compute in ("<<<M156>>>" ++ check (runes_of_ascii "packet falsey { repeat u8 Logon ,
+char[]
+f32a
+    , tag rootA,
+    //
+    @rightPad (' ' // `tick` ""quote"" 'q'
+)@tag( 007 ) match o	as _x{ [ 1 ,""a	b"" , ""1""	, 00  ,7 ,
+    // `tick` ""quote"" 'q'
+    """ ++ [233]%N ++ runes_of_ascii "t" ++ [233]%N ++ runes_of_ascii """ ,7 , 00
+    ]
+    :
+Foo
+,
+    ""\" ++ [233]%N ++ runes_of_ascii """ : matchKey ,
+} ,
+    @rightPad (
+'\x00' )string msg_type , repeat u8x
+    , repeat BodyLength  ,
+}")).
+Eval vm_compute in ("<<<M4340>>>" ++ check (runes_of_ascii "
+
+  packet 
+        // a // b
+	calculatedFrom{ @calculatedFrom(
+""1""
+)
+
+repeat  options1
+
+{crc @lengthOf( i8i8  )
+
+`it's`
+    , i8 lengthOf
+    `tab	here`
+	,
+    zchar	@lengthOf( pack
+
+    ), },	char[
+
+    42
+
+]
+trueish@lengthOf(// " ++ [27880; 37322]%N ++ runes_of_ascii "
+  Packet)
+    , 
+zchar[ 
+10] a1
+
+,
+}MetaData // c
+
+lengthOf
+{
+
+string
+    float , }
+")).
+Eval vm_compute in ("<<<M4467>>>" ++ check (runes_of_ascii "MetaData Z9_ {
+    //
+    char[] u128 `" ++ [28040; 24687; 31867; 22411]%N ++ runes_of_ascii "`,
+    float64 BodyLength,
+    roots MetaDataX `
+        `,
+    packetx falsey,
+    // trailing space 
+    // packet A { u8 x, }
+    i16 body,
+    f64 i64_,
+}
+
+options {
+    u8x = ""x y"";
+    packetx = 255;
+    f32a = ""it's""
+}
+
+packet u128 {
+    T @calculatedFrom(""a\\""),
+}")).
+Eval vm_compute in ("<<<M3650>>>" ++ check (runes_of_ascii "MetaData _x {
+    //x
+    char[3] Pad `crlf
+        line`,
+}
+
+packet trueish {
+    // a // b
+    // c
+    u,
+    repeat f32a {
+        char[65535] MetaDataX,
+    },
+    @calculatedFrom(""// no comment"")
+    zchar[007] crc @calculatedFrom(""a\""b"") `{ , }`,
+    @lengthOf(x_y_z)
+    As `
+        `,
+}
+//")).
+Eval vm_compute in ("<<<M866>>>" ++ check (runes_of_ascii "MetaData lengthOf
+{ char[ 10 ]metadata	`two words`
+,// 50% %s
+chars	_x
+, i32 len	`` , int16 // trailing space 
+zchar
+    `line1
+line2`, calculatedFrom T
+    ,
+} packet x_y_z { @calculatedFrom( ""a	b"")
+repeat Packet ,
+BodyLength
+`` ,
+repeat float
+u128 `say ""hi""`// @lengthOf(
+,
+    }
+")).
+Eval vm_compute in ("<<<M3948>>>" ++ check (runes_of_ascii "
+packet
+	options1
+{
+
+    zchar[	255	]leftPad
+
+    , 
+} packet repeatCount {
+    }
+MetaData	pack
+
+// " ++ [27880; 37322]%N ++ runes_of_ascii "
+    //x
+{ 
+char[ 00  ]
+
+BodyLength
+	,
+    zchar[ 	 //	t
+
+	0123456789]
+metadata 
+,zchar[ 65535
+
+    ]	rootA
+
+    `a\` 
+,
+uint32	msg_type
+	, Foo f32a
+
+    ,
+	}
+
+")).
+Eval vm_compute in ("<<<M4033>>>" ++ check (runes_of_ascii "root packet lengthOf {
+    @calculatedFrom(""\n"")
+    @leftPad('\x00')
+    @tag(65535)
+    repeat lengthOf {
+        repeat uint8 Z9_,
+        repeat f32 BodyLength `crlf
+        line`,
+        repeat i8i8,
+        // packet A { u8 x, }
+        pack BodyLength,
+    },
+}")).
+Eval vm_compute in ("<<<M1708>>>" ++ check (runes_of_ascii "// 50% %s
+packet	a1
+    { zchar[
+// a // b
+// 50% %s
+007]
+T `it's`
+    ,@rightPad
+    // a // b
+    (
+'\x00')
+    " ++ [252]%N ++ runes_of_ascii "ber repeatCount , }  packet Logon {  }packet	Logon //x
+{ repeat // " ++ [128512]%N ++ runes_of_ascii " emoji
+uint16 u128
+    //
+    `a\`,
+falsey
+@calculatedFrom(""packet"" ) ,
+    } 	 ")).
+Eval vm_compute in ("<<<M1694>>>" ++ check (runes_of_ascii "// 50% %s
+packet	a1
+    { zchar[
+// a // b
+// 50% %s
+007]
+T `it's`
+    ,@rightPad
+    // a // b
+    (
+'\x00')
+    o repeatCount , }  packet Logon {  }packet	Logon //x
+{ /repeat // " ++ [128512]%N ++ runes_of_ascii " emoji
+uint16 u128
+    //
+    `a\`,
+falsey
+@calculatedFrom(""packet"" ) ,
+    } 	 ")).
+Eval vm_compute in ("<<<M1628>>>" ++ check (runes_of_ascii "// 50% %s
+packet	a1
+    { zchar[
+// a // b
+// 50% %s
+007]
+T `it's`
+    ,@rightPad
+    // a // b
+    (
+'\x00')
+    o repeatCount , }  packet Logon {  }packet	{ //x
+Logon repeat // " ++ [128512]%N ++ runes_of_ascii " emoji
+uint16 u128
+    //
+    `a\`,
+falsey
+@calculatedFrom(""packet"" ) ,
+    } 	 ")).
+Eval vm_compute in ("<<<M1686>>>" ++ check (runes_of_ascii "// 50% %s
+packet	a1
+    { zchar[
+// a // b
+// 50% %s
+007]
+T `it's`
+    ,@rightPad
+    // a // b
+    (
+'\x00')
+    o repeatCount , }  packet Logon {  }packet	Logon //x
+{ repeat // " ++ [128512]%N ++ runes_of_ascii " emoji
+uint16 u128
+    //
+    `a\`,
+falsey
+@calculatedFrom(""packet"" ) ,
+     	 ")).
+Eval vm_compute in ("<<<M1516>>>" ++ check (runes_of_ascii "// 50% %s
+	a1
+    { zchar[
+// a // b
+// 50% %s
+007]
+T `it's`
+    ,@rightPad
+    // a // b
+    (
+'\x00')
+    o repeatCount , }  packet Logon {  }packet	Logon //x
+{ repeat // " ++ [128512]%N ++ runes_of_ascii " emoji
+uint16 u128
+    //
+    `a\`,
+falsey
+@calculatedFrom(""packet"" ) ,
+    } 	 ")).
+Eval vm_compute in ("<<<M1269>>>" ++ check (runes_of_ascii "root packet //
+float { body `tab	here`//	t
+,} options { // a // b
+x
+= uint8 u8x =
+"""" lengthOf= float64
+    ; float = """ ++ [28040; 24687]%N ++ runes_of_ascii """  } options {
+} root packet A
+{ Header ,
+// packet A { u8 x, }
+// trailing space 
+@tag( 0) Foo metadata	`doc` // " ++ [128512]%N ++ runes_of_ascii " emoji
+, }")).
+Eval vm_compute in ("<<<M1675>>>" ++ check (runes_of_ascii "// 50% %s
+packet	a1
+    { zchar[
+// a // b
+// 50% %s
+007]
+T `it's`
+    ,@rightPad
+    // a // b
+    (
+'\x00')
+    o repeatCount , }  packet Logon {  }packet	Logon //x
+{ repeat // " ++ [128512]%N ++ runes_of_ascii " emoji
+uint16 u128
+    //
+    `a\`,
+falsey
+@calculatedFrom(")).
+Eval vm_compute in ("<<<M1181>>>" ++ check (runes_of_ascii "MetaData trueish {	char[ 42 ]
+    tag `line1
+line2`
+, // " ++ [27880; 37322]%N ++ runes_of_ascii "
+} // trailing space 
+MetaData Pad{ f64 pack  ,
+    As matchKey,u32 // 50% %s
+As , int64
+    repeatCount , Foo o
+    , string // trailing space 
+charz, }packet Header
+{}
+")).
+Eval vm_compute in ("<<<M4157>>>" ++ check (runes_of_ascii "root packet falsey {
+    // c
+    repeat zchar[42] f32a,
+    matchKey @lengthOf(x),// `tick` ""quote"" 'q'
+    @calculatedFrom(""{,}"")
+    @leftPad('\x00')
+    //	t
+    repeat f32a,
+    @rightPad('\x00')
+    T @lengthOf(o),
+}")).
+Eval vm_compute in ("<<<M704>>>" ++ check (runes_of_ascii "
+root packet
+stringy {
+repeat char[ 4294967296]_x ,i8i8 @calculatedFrom(
+""{,}"" ) `two words`
+,
+// " ++ [128512]%N ++ runes_of_ascii " emoji
+// @lengthOf(
+} MetaData falsey {
+}
+    MetaData int
+    { zchar[
+    1]
+metadata `
+` , i8i8
+rootA,  }
+")).
+Eval vm_compute in ("<<<M825>>>" ++ check (runes_of_ascii "root packet
+    Packet
+{ @rightPad ( '\x00' ) calculatedFrom {repeat char[ 1 ] u8x
+, // 50% %s
+repeat
+zchar[ 1] packetx `u8 x,` , }, }
+    packet u128 {
+repeat string rootA ,
+// packet A { u8 x, }
+//x
+}
+")).
+Eval vm_compute in ("<<<M816>>>" ++ check (runes_of_ascii "root  packet	BodyLength { @tag( 1 ) f64
+    x_y_z `it's` , @calculatedFrom(""packet"") @calculatedFrom( ""CRC32""
+/// triple
+/// triple
+)// c
+char /// triple
+Pad
+    //	t
+    , string msg_type , }")).
+Eval vm_compute in ("<<<M804>>>" ++ check (runes_of_ascii "packet As{ } options { T =true;crc = f64
+//
+//	t
+x =
+    """"	;
+    }options { //	t
+repeatCount// packet A { u8 x, }
+= // @lengthOf(
+char ;
+leftPad=
+// a // b
+/// triple
+""`tick`"" ; }
+")).
+Eval vm_compute in ("<<<M1146>>>" ++ check (runes_of_ascii "// " ++ [128512]%N ++ runes_of_ascii " emoji
+MetaData	len {
+char[] o `tab	here` , char[]
+    Logon , char[] Foo
+    , uint64  Z9_ ,
+    A  Foo ,uint8
+    falsey// `tick` ""quote"" 'q'
 `crlf
 line` ,
-Foo @lengthOf( u8x
-) ,float ,
-    //
-    }
-, string // a // b
-lengthOf
-@calculatedFrom(	""abc"" )
-, @lengthOf(charz )
-    repeat string_	{// " ++ [128512]%N ++ runes_of_ascii " emoji
-zchar[
-    0
-    // a // b
-    ] T @calculatedFrom( ""a\\"" ) //	t
-, zchar[
-    42 ] repeatCount @lengthOf(
-Z9_ )`u8 x,`,}
-,  zchar[1
-    ]
-crc @calculatedFrom( // " ++ [27880; 37322]%N ++ runes_of_ascii "
-""// no comment"" )
-    `it's`
-    // `tick` ""quote"" 'q'
-    , @calculatedFrom(""{,}"")
-    tag
-int//
-, //x
-}
-MetaData f32a { // trailing space 
-i64 int // c
-,string int
-    , // c
-asx
-    //x
-    Pad
-    //x
-    `crlf
-line` , string lengthOf,
-    uint32
-pack ,// " ++ [27880; 37322]%N ++ runes_of_ascii "
-msg_type
-    u `it's` ,
-}")).
-Eval vm_compute in ("<<<M1510>>>" ++ check (runes_of_ascii "// top
-packet
-    // c0
-MDSnapshotZZ // c1a
-  // c1b
-{ // c2
-u8 // c3a
-  // c3b
-a
-    // c4
-, // c5
-} packet // c7
-OrderACK
-    // c8
-{
-    // c9
-u16 // c10
-b // c11
-, }
-    // c13
-packet // c14
-HTTPServerInfo // c15a
-  // c15b
-{ // c16a
-  // c16b
-string // c17a
-  // c17b
-s // c18
-, } // c20
-root packet
-    // c22
-FIXMsg
-    // c23
-{ // c24a
-  // c24b
-u8 // c25a
-  // c25b
-KType
-    // c26
-, // c27
-MDSnapshotZZ // c28
-, repeat
-    // c30
-OrderACK // c31a
-  // c31b
-, // c32a
-  // c32b
-match KType as Body
-    // c36
-{ // c37a
-  // c37b
-1 // c38
-: // c39
-HTTPServerInfo , 2 : // c43a
-  // c43b
-OrderACK
-    // c44
-, // c45
-} // c46
-,
-    // c47
-} // c48
-")).
-Eval vm_compute in ("<<<M1557>>>" ++ check (runes_of_ascii "options {
-    LittleEndian = false;
-    ArrayPrefixLenType = u8;
-    FixedStringPadChar = '0';
-}
-packet Order {
-    InNote94 {
-        f32 f1,
-        f64 Side2,
-        repeat InTail47 {
-            char[] seqNo,
-            char[] Tail,
-            char[] lastPx,
-        },
-    },
-    zchar[7] f1,
-    u8 Side2,
-}
-root packet Reject {
-    repeat char[4] Flags,
-    InPrice63 {
-        InSeqno41 {
-            repeat i8 OrderId,
-            repeat i32 clOrdID,
-            char[9] tag7,
-            char[] lastPx,
-        },
-        Order,
-        uint8 Side2,
-    },
-}
-")).
-Eval vm_compute in ("<<<M1519>>>" ++ check (runes_of_ascii "// top
-root // c0
-packet Frame {
-    // c3
-u8 K ,
-    // c6
-Logon // c7a
-  // c7b
-first , // c9a
-  // c9b
-match
-    // c10
-K
-    // c11
-as // c12
-Body // c13a
-  // c13b
-{ // c14a
-  // c14b
-1 : // c16a
-  // c16b
-Logon , // c18a
-  // c18b
-2 :
-    // c20
-Logout
-    // c21
-, // c22
-} , }
-    // c25
-packet Logon // c27
-{ // c28
-string // c29
-user // c30a
-  // c30b
-, // c31a
-  // c31b
-} // c32a
-  // c32b
-packet
-    // c33
-Logout { // c35
-u16 // c36
-reason
-    // c37
-, // c38a
-  // c38b
-}
-    // c39
-")).
-Eval vm_compute in ("<<<M1546>>>" ++ check (runes_of_ascii "options {
-    LittleEndian = true;
-    StringPrefixLenType = u16;
-    ArrayPrefixLenType = u64;
-}
-packet Fill {
-}
-packet Logon {
-    repeat char[3] Tail,
-    zchar[6] venue,
-    repeat string Side2,
-}
-root packet Cancel {
-    char[] Flags,
-    char[] OrderId,
-    zchar[6] msgKind,
-    Fill,
-    char[] Acct,
-    u8 f1,
-    match f1 as Body {
-        188 : Fill,
-        5 : Logon,
-    },
-    u32 clOrdID @calculatedFrom(""CRC32""),
-}
-")).
-Eval vm_compute in ("<<<M114>>>" ++ check (runes_of_ascii "packet BodyLength {  @tag(
-0 )
-    char[
-4294967296 ]
-    options1 , }
-    root packet asx{ repeat string //x
-zchar //	t
-,
-    repeat char string_ `" ++ [28040; 24687; 31867; 22411]%N ++ runes_of_ascii "` ,
-    } options{ rootA = zchar[ 00
-] ;len = ""a\""b"" ; float =7;uint8x= f64 ;// `tick` ""quote"" 'q'
-}root packet
-    stringy{trueish Foo , } packet
-pack{ u64
-// @lengthOf(
-// c
-repeatCount @lengthOf( Header
-    ) ,
-}
-
-")).
-Eval vm_compute in ("<<<M330>>>" ++ check (runes_of_ascii "root packet calculatedFrom { @lengthOf( asx )	T{
-repeat
-/// triple
-//x
-packetx A  ,
-match // " ++ [27880; 37322]%N ++ runes_of_ascii "
-string_ as msg_type { [""abc""] :
-As 0123456789 :  repeatCount
-    , ""a\""b"" :
-roots, } , },uint8x BodyLength `{ , }`
-, string  BodyLength,@leftPad(
-    '\x00'
-) repeat calculatedFrom { uint32 //	t
-trueish ,/// triple
-}, // c
 } // a // b")).
-Eval vm_compute in ("<<<M188>>>" ++ check (runes_of_ascii "packet options1 {// " ++ [128512]%N ++ runes_of_ascii " emoji
-@calculatedFrom( ""abc""
-) //
-repeat BodyLength , a1
-@lengthOf(
-    // trailing space 
-    i8i8
-    // " ++ [128512]%N ++ runes_of_ascii " emoji
-    ) ,
-    } packet	asx
-    {char[ 0] o`crlf
-line`
-,char[] options1 `crlf
-line`
-,
-@tag( 42 )
-    repeat Foo  ,
-asx @calculatedFrom(
-    ""`tick`"") ,}")).
-Eval vm_compute in ("<<<M604>>>" ++ check (runes_of_ascii "root packet tag { }  packet MetaDataX{char[007	]
-// c
-/// triple
-asx  @calculatedFrom( ""a\""b""
-) `say ""hi""`// " ++ [27880; 37322]%N ++ runes_of_ascii "
-,  @tag(4294967296 )
-    char[1//x
-] packetx @calculatedFrom(""a\""b"" ""a\""b""
-    ) ,
-// " ++ [128512]%N ++ runes_of_ascii " emoji
-// a // b
-@calculatedFrom(""" ++ [233]%N ++ runes_of_ascii "t" ++ [233]%N ++ runes_of_ascii """  ) repeat pack // " ++ [27880; 37322]%N ++ runes_of_ascii "
-,
-    } // c")).
-Eval vm_compute in ("<<<M494>>>" ++ check (runes_of_ascii "root packet tag { { }  packet MetaDataX{char[007	]
-// c
-/// triple
-asx  @calculatedFrom( ""a\""b""
-) `say ""hi""`// " ++ [27880; 37322]%N ++ runes_of_ascii "
-,  @tag(4294967296 )
-    char[1//x
-] packetx @calculatedFrom(""a\""b""
-    ) ,
-// " ++ [128512]%N ++ runes_of_ascii " emoji
-// a // b
-@calculatedFrom(""" ++ [233]%N ++ runes_of_ascii "t" ++ [233]%N ++ runes_of_ascii """  ) repeat pack // " ++ [27880; 37322]%N ++ runes_of_ascii "
-,
-    } // c")).
-Eval vm_compute in ("<<<M611>>>" ++ check (runes_of_ascii "root packet tag { }  packet MetaDataX{char[007	]
-// c
-/// triple
-asx  @calculatedFrom( ""a\""b""
-) `say ""hi""`// " ++ [27880; 37322]%N ++ runes_of_ascii "
-,  @tag(4294967296 )
-    char[1//x
-] packetx @calculatedFrom(""a\""b""
-    as ,
-// " ++ [128512]%N ++ runes_of_ascii " emoji
-// a // b
-@calculatedFrom(""" ++ [233]%N ++ runes_of_ascii "t" ++ [233]%N ++ runes_of_ascii """  ) repeat pack // " ++ [27880; 37322]%N ++ runes_of_ascii "
-,
-    } // c")).
-Eval vm_compute in ("<<<M600>>>" ++ check (runes_of_ascii "root packet tag { }  packet MetaDataX{char[007	]
-// c
-/// triple
-asx  @calculatedFrom( ""a\""b""
-) `say ""hi""`// " ++ [27880; 37322]%N ++ runes_of_ascii "
-,  @tag(4294967296 )
-    char[1//x
-] packetx ""a\""b""@calculatedFrom(
-    ) ,
-// " ++ [128512]%N ++ runes_of_ascii " emoji
-// a // b
-@calculatedFrom(""" ++ [233]%N ++ runes_of_ascii "t" ++ [233]%N ++ runes_of_ascii """  ) repeat pack // " ++ [27880; 37322]%N ++ runes_of_ascii "
-,
-    } // c")).
-Eval vm_compute in ("<<<M673>>>" ++ check (runes_of_ascii "root packet tag { }  packet MetaDataX{char[007	]
-// c
-/// triple
-asx  @calculatedFrom( ""a\""b""
-) `say ""hi""`// " ++ [27880; 37322]%N ++ runes_of_ascii "
-,  @tag(4294967296 )
-    char[1//x
-] packetx @calculatedFrom(""a\""b""
-    ) ,
-// " ++ [128512]%N ++ runes_of_ascii " emoji
-// a // b
-@calculatedFrom(""" ++ [233]%N ++ runes_of_ascii "t" ++ [233]%N ++ runes_of_ascii """  ) repeat x" ++ [178]%N ++ runes_of_ascii " // " ++ [27880; 37322]%N ++ runes_of_ascii "
-,
-    } // c")).
-Eval vm_compute in ("<<<M55>>>" ++ check (runes_of_ascii "// " ++ [27880; 37322]%N ++ runes_of_ascii "
-options { u8x
-=false}	packet crc
-{ @leftPad
-    ( // `tick` ""quote"" 'q'
-'\x00'
-)@calculatedFrom( ""a\""b"" ) char[] u@lengthOf(
-    x ), stringy
-charz	`" ++ [233]%N ++ runes_of_ascii "`
-// c
-// c
-,
-} packet
-// c
-//x
-tag {
-    string T,zchar[ 7
-    ] leftPad ,// `tick` ""quote"" 'q'
-}
+Eval vm_compute in ("<<<M4264>>>" ++ check (runes_of_ascii "
+// top
+
+  root// c0a
+	  // c0b
+    packet 	 // c1
+
+	P
+	    // c2
+{	// c3a
+    	// c3b
+	repeat	// c4
+char  // c5a
+// c5b
+	cs
+, 
+	// c7
+    u8
+x  , } 
+
+    // c11
 ")).
-Eval vm_compute in ("<<<M89>>>" ++ check (runes_of_ascii "//	t
-packet
-packetx { zchar , @lengthOf( x_y_z )o ,
-}
-    packet  Packet // " ++ [128512]%N ++ runes_of_ascii " emoji
-{ match u128 as // a // b
-Header{ [
-    7
-    ,""1""
-]: u
-    , ""x y"" :
-charz 0123456789 : calculatedFrom
-//	t
-//x
-} ,// " ++ [27880; 37322]%N ++ runes_of_ascii "
-repeat  roots
-tag
-    ,}")).
-Eval vm_compute in ("<<<M1620>>>" ++ check (runes_of_ascii "packet
-Logon{ string
-	user
-	,
-    }
-	root	packet
+Eval vm_compute in ("<<<M3606>>>" ++ check (runes_of_ascii "  packet
+A
+    { 
+u8
+a
 
-Frame  {u8 
-K	,
-    match
+, 
+} packet B {
+    u16 
+b 
+,	} root packet  P {u8 K
+,
+    match	K
+as	M
+	{[ 1	,2 ]
 
-    K	as
-
-Body
-{ 1
+    : 
+A  , 3
 	:
-Logon , 2
-    :  Logout
-, }, Tail
+	B ,	7
+    : 
+A
+	, } ,
 
-, }
-    packet Logout
-    {  u16 reason
-	, }
-
-packet	Tail { u32
-crc ,} ")).
-Eval vm_compute in ("<<<M1520>>>" ++ check (runes_of_ascii "root packet
-	Frame
-
-    {	u8
-	K
-	,Logon
-
-    first  , match K	as
-Body{
-	1: Logon , 
-2 
-:
-Logout	,
     }
-    , }packet Logon{ string
-user ,
-}
-    packet Logout
-	{ u16
-    reason
-,	}
 ")).
-Eval vm_compute in ("<<<M224>>>" ++ check (runes_of_ascii "root
-packet Logon	{/// triple
-@calculatedFrom(
-    ""`tick`"" ) @rightPad ( ' '  )
-    @tag(
-    42 ) //	t
-char[ 3 ]
-trueish  @lengthOf(
-matchKey
-    // @lengthOf(
-    ) `" ++ [233]%N ++ runes_of_ascii "` ,}
-")).
-Eval vm_compute in ("<<<M402>>>" ++ check (runes_of_ascii "packet
-    // `tick` ""quote"" 'q'
-    crc
-// packet A { u8 x, }
-//	t
-{
-int64 a1 ,
-    // trailing space 
-    roots
-charz //
-`two words`,	}
-    MetaData int {
-} /// triple")).
-Eval vm_compute in ("<<<M1975>>>" ++ check (runes_of_ascii "packet A {
+Eval vm_compute in ("<<<M4037>>>" ++ check (runes_of_ascii "packet A {
     match k as n {
         [
-            ""a"", ""bb"", 007, ""d"", ""e"",
-            66, ""g"", ""h"", 9, ""j"",
-            ""k"", 12
+            ""a"", ""bb"", ""c c"", ""d"", ""e"",
+            ""f"", ""g"", ""h"", ""i"", ""j""
         ] : B,
         2 : C,
     },
 }")).
-Eval vm_compute in ("<<<M388>>>" ++ check (runes_of_ascii "char[
+Eval vm_compute in ("<<<M2091>>>" ++ check (runes_of_ascii "MetaData BodyLength
+{ int8 Foo
+, string
+    MetaDataX , float float zchar ,pack options1
+,asx string_, }
+packet u8x {Foo@lengthOf(charz )
+`" ++ [28040; 24687; 31867; 22411]%N ++ runes_of_ascii "`,  }
+")).
+Eval vm_compute in ("<<<M2068>>>" ++ check (runes_of_ascii "MetaData BodyLength
+{ int8 int64
+, string
+    MetaDataX , float zchar ,pack options1
+,asx string_, }
+packet u8x {Foo@lengthOf(charz )
+`" ++ [28040; 24687; 31867; 22411]%N ++ runes_of_ascii "`,  }
+")).
+Eval vm_compute in ("<<<M2157>>>" ++ check (runes_of_ascii "MetaData BodyLength
+{ int8 Foo
+, string
+    MetaDataX , float zchar ,pack options1
+,asx string_, }
+packet u8x {@lengthOf(Foo charz )
+`" ++ [28040; 24687; 31867; 22411]%N ++ runes_of_ascii "`,  }
+")).
+Eval vm_compute in ("<<<M2107>>>" ++ check (runes_of_ascii "MetaData BodyLength
+{ int8 Foo
+, string
+    MetaDataX , float zchar ,options1 pack
+,asx string_, }
+packet u8x {Foo@lengthOf(charz )
+`" ++ [28040; 24687; 31867; 22411]%N ++ runes_of_ascii "`,  }
+")).
+Eval vm_compute in ("<<<M2130>>>" ++ check (runes_of_ascii "MetaData BodyLength
+{ int8 Foo
+, string
+    MetaDataX , float zchar ,pack options1
+,asx string_ }
+packet u8x {Foo@lengthOf(charz )
+`" ++ [28040; 24687; 31867; 22411]%N ++ runes_of_ascii "`,  }
+")).
+Eval vm_compute in ("<<<M1207>>>" ++ check (runes_of_ascii "options
+{ u8x = ""it's""
     // `tick` ""quote"" 'q'
-    crc
-// packet A { u8 x, }
-//	t
-{
-u32 a1 ,
-    // trailing space 
-    roots
-charz //
-`two words`,	}
-    MetaData int {
-} /// triple")).
-Eval vm_compute in ("<<<M678>>>" ++ check (runes_of_ascii " packet len // trailing space 
-{
+    x_y_z= 42 o = true ;
+MetaDataX // a // b
+=
+// " ++ [128512]%N ++ runes_of_ascii " emoji
 // " ++ [27880; 37322]%N ++ runes_of_ascii "
-//	t
-char[10
-] metadata	@lengthOf( o ) `crlf
-line`,
-    @rightPad
-( ' '
-) string
-    Header @calculatedFrom( ""a\\""
-    ), }
-")).
-Eval vm_compute in ("<<<M2124>>>" ++ check (runes_of_ascii "
-root
-	packet matchKey{ zchar[3
-    ] pack
-	@calculatedFrom( ""a	b""
-
-)
-	`doc` ,}
-
-    options  // c
+'0' ;
+} // trailing space ")).
+Eval vm_compute in ("<<<M2289>>>" ++ check (runes_of_ascii "options
     {
-}
-    MetaData	A
-
-    { int8 msg_type,
-
-    }")).
-Eval vm_compute in ("<<<M1496>>>" ++ check (runes_of_ascii "
-packet A
-    { 
-u8	a
-,	} packet
-    B{  u16 b, } root	packet 
-P
-	{ u8  K , match  K
-as M
-	{
-
-[
-
-    1, 2	] :	A	,
-
-3
-    : B ,
-7:
-A  , }  , }
-")).
-Eval vm_compute in ("<<<M20>>>" ++ check (runes_of_ascii "options { x_y_z =  """ ++ [128512]%N ++ runes_of_ascii """
-/// triple
-// @lengthOf(
-options1 =
-""a\\""  ;
-    x_y_z  = 255 ; } //x
-packet
-    charz {
-    } // trailing space ")).
-Eval vm_compute in ("<<<M1895>>>" ++ check (runes_of_ascii "root packet matchKey {
-    zchar[3] pack @calculatedFrom(""a	b"") `doc`,
-}
-
+x_y_z// " ++ [27880; 37322]%N ++ runes_of_ascii "
+= 10 ; }
+packet body {
+    @calculatedFrom(
+// trailing space 
+// " ++ [27880; 37322]%N ++ runes_of_ascii "
+""1""
+)	match T as Foo Foo
+    {
+255 :T , }
+,}")).
+Eval vm_compute in ("<<<M1947>>>" ++ check (runes_of_ascii "
+packet leftPad {
+@leftPad( ( '0')
+u32
+i64_ `100% of %d` ,repeat// 50% %s
+i8 chars
+    ,
+} MetaData
+    f32a
+{ // packet A { u8 x, }
+}")).
+Eval vm_compute in ("<<<M2326>>>" ++ check (runes_of_ascii "options
+    {
+x_y_z// " ++ [27880; 37322]%N ++ runes_of_ascii "
+= 10 ; }
+packet body {
+    @calculatedFrom(
+// trailing space 
+// " ++ [27880; 37322]%N ++ runes_of_ascii "
+""1""
+)	match T as Foo
+    {
+255 :T , }
+u16}")).
+Eval vm_compute in ("<<<M1930>>>" ++ check (runes_of_ascii "
+""a\""b"" leftPad {
+@leftPad( '0')
+u32
+i64_ `100% of %d` ,repeat// 50% %s
+i8 chars
+    ,
+} MetaData
+    f32a
+{ // packet A { u8 x, }
+}")).
+Eval vm_compute in ("<<<M2235>>>" ++ check (runes_of_ascii "options
+    {
+x_y_z// " ++ [27880; 37322]%N ++ runes_of_ascii "
+= 10 } ;
+packet body {
+    @calculatedFrom(
+// trailing space 
+// " ++ [27880; 37322]%N ++ runes_of_ascii "
+""1""
+)	match T as Foo
+    {
+255 :T , }
+,}")).
+Eval vm_compute in ("<<<M1996>>>" ++ check (runes_of_ascii "
+packet leftPad {
+@leftPad( '0')
+u32
+i64_ `100% of %d` ,repeat// 50% %s
+i8 chars
+    
+} MetaData
+    f32a
+{ // packet A { u8 x, }
+}")).
+Eval vm_compute in ("<<<M1066>>>" ++ check (runes_of_ascii "// @lengthOf(
 options {
-}
-
-MetaData A {
-    // c
-    int8 msg_type,
-}")).
-Eval vm_compute in ("<<<M1226>>>" ++ check (runes_of_ascii "root packet
-// c
-matchKey { zchar[ 3 ] pack @calculatedFrom( ""a	b"" ) `doc` , } options { } MetaData A { int8 msg_type , }")).
-Eval vm_compute in ("<<<M1258>>>" ++ check (runes_of_ascii "root packet matchKey { zchar[ 3 ] pack @calculatedFrom( ""a	b"" ) `doc` , } options { } MetaData
-// c
-A { int8 msg_type , }")).
-Eval vm_compute in ("<<<M1788>>>" ++ check (runes_of_ascii "  packet
-
-    chars
-{	} 
-packet MetaDataX
-    {	@tag(
-42 )
-
-i16
-
-    string_ ,repeat
-x `say ""hi""` 
-// c
-	,
-} ")).
-Eval vm_compute in ("<<<M2069>>>" ++ check (runes_of_ascii "packet metadata	{Logon
-
-    { A `" ++ [28040; 24687; 31867; 22411]%N ++ runes_of_ascii "`
-,
-	tag
-o, }
-    , 
-zchar
-    len
-`// not a comment` 	 // c
-    ,	}
-
+    T = ""{,}""
+    ; Logon	=
+    // packet A { u8 x, }
+    10 }	root packet chars { string A `crlf
+line` , }
 ")).
-Eval vm_compute in ("<<<M906>>>" ++ check (runes_of_ascii "packet A {
+Eval vm_compute in ("<<<M1991>>>" ++ check (runes_of_ascii "
+packet leftPad {
+@leftPad( '0')
+u32
+i64_ `100% of %d` ,repeat// 50% %s
+i8 
+    ,
+} MetaData
+    f32a
+{ // packet A { u8 x, }
+}")).
+Eval vm_compute in ("<<<M1931>>>" ++ check (runes_of_ascii "
+packet  {
+@leftPad( '0')
+u32
+i64_ `100% of %d` ,repeat// 50% %s
+i8 chars
+    ,
+} MetaData
+    f32a
+{ // packet A { u8 x, }
+}")).
+Eval vm_compute in ("<<<M629>>>" ++ check (runes_of_ascii "options { i64_
+// " ++ [27880; 37322]%N ++ runes_of_ascii "
+// @lengthOf(
+=
+char body
+=// " ++ [128512]%N ++ runes_of_ascii " emoji
+true
+    ;
+    } root packet //	t
+BodyLength { }
+packet asx {
+}
+")).
+Eval vm_compute in ("<<<M3217>>>" ++ check (runes_of_ascii "// top
+root
+    // c0
+packet
+    // c1
+u128
+    // c2
+{
+    // c3
+chars
+    // c4
+`doc`
+    // c5
+,
+    // c6
+}
+    // c7
+")).
+Eval vm_compute in ("<<<M3083>>>" ++ check (runes_of_ascii "packet A {
+    match k as n {
+        ""x\
+y"" : B,
+        [""x\
+y"", 1] : C,
+        [1,2,3,4,5,""x\
+y""] : D,
+    },
+}")).
+Eval vm_compute in ("<<<M1912>>>" ++ check (runes_of_ascii "packet o {
+    roots `it's`
+// trailing space 
+//x
+, char[ 42
+    ]  A, // " ++ [27880; 37322]%N ++ runes_of_ascii "
+f64
+repeatCount
+    `crlf
+line`
+,}" ++ [0]%N ++ runes_of_ascii " ")).
+Eval vm_compute in ("<<<M1305>>>" ++ check (runes_of_ascii "options {Z9_ = 007  ;
+    falsey= """ ++ [128512]%N ++ runes_of_ascii """	; }options {asx
+    = uint16 ; }options
+{ T=  string ;
+lengthOf
+= false ; }")).
+Eval vm_compute in ("<<<M1897>>>" ++ check (runes_of_ascii "packet o {
+    roots `it's`
+// trailing space 
+//x
+, char[ 42
+    ]  A, // " ++ [27880; 37322]%N ++ runes_of_ascii "
+f64
+repeatCount
+    `crlf
+line`
+}")).
+Eval vm_compute in ("<<<M1925>>>" ++ check (runes_of_ascii "packet o {
+    x" ++ [178]%N ++ runes_of_ascii " `it's`
+// trailing space 
+//x
+, char[ 42
+    ]  A, // " ++ [27880; 37322]%N ++ runes_of_ascii "
+f64
+repeatCount
+    `crlf
+line`
+,}")).
+Eval vm_compute in ("<<<M1895>>>" ++ check (runes_of_ascii "packet o {
+    roots `it's`
+// trailing space 
+//x
+, char[ 42
+    ]  A, // " ++ [27880; 37322]%N ++ runes_of_ascii "
+f64
+repeatCount
+    packet
+,}")).
+Eval vm_compute in ("<<<M3004>>>" ++ check (runes_of_ascii "packet A {
   match k as n {
-    [""a"", 22, ""c c"", 4, ""e"", 66, ""g"", 8, ""i"", 10, ""k"", 12] : B
+    [1, ""bb"", 007, ""d"", 5, ""f"", 7, ""h"", 9, ""j"", 11, ""l""] : B
     2 : C
   },
 }")).
-Eval vm_compute in ("<<<M893>>>" ++ check (runes_of_ascii "packet A {
-  match k as n {
-    [""a"", 22, ""c c"", 4, ""e"", 66, ""g"", 8, ""i"", 10, ""k""] : B
-    2 : C
-  },
-}")).
-Eval vm_compute in ("<<<M879>>>" ++ check (runes_of_ascii "packet A {
+Eval vm_compute in ("<<<M1575>>>" ++ check (runes_of_ascii "// 50% %s
+packet	a1
+    { zchar[
+// a // b
+// 50% %s
+007]
+T `it's`
+    ,@rightPad
+    // a // b
+    (")).
+Eval vm_compute in ("<<<M2979>>>" ++ check (runes_of_ascii "packet A {
   match k as n {
     [""a"", 22, ""c c"", 4, ""e"", 66, ""g"", 8, ""i"", 10] : B,
     2 : C
   },
 }")).
-Eval vm_compute in ("<<<M1939>>>" ++ check (runes_of_ascii "MetaData a1 {
-    Foo body `{ , }`,
-    int32 int ``,
-    i32 a1 `" ++ [28040; 24687; 31867; 22411]%N ++ runes_of_ascii "`,
-    int8 msg_type ``,
-}")).
-Eval vm_compute in ("<<<M865>>>" ++ check (runes_of_ascii "packet A {
-  match k as n {
-    [1, ""bb"", 007, ""d"", 5, ""f"", 7, ""h"", 9] : B
-    2 : C
-  },
-}")).
-Eval vm_compute in ("<<<M1185>>>" ++ check (runes_of_ascii "MetaData float {
-// c
-float64 charz `
-` , } root packet chars { @rightPad ( '0' ) Foo , }")).
-Eval vm_compute in ("<<<M1396>>>" ++ check (runes_of_ascii "packet // c
-chars { } packet MetaDataX { @tag( 42 ) i16 string_ , repeat x `say ""hi""` , }")).
-Eval vm_compute in ("<<<M1428>>>" ++ check (runes_of_ascii "packet chars { } packet MetaDataX { @tag( 42 ) i16 string_ , repeat x `say ""hi""` , // c
-}")).
-Eval vm_compute in ("<<<M1126>>>" ++ check (runes_of_ascii "packet metadata // c
-{ Logon { A `" ++ [28040; 24687; 31867; 22411]%N ++ runes_of_ascii "` , tag o , } , zchar len `// not a comment` , }")).
-Eval vm_compute in ("<<<M1339>>>" ++ check (runes_of_ascii "
-// c
-packet o { repeat Logon uint8x , } options { asx = zchar[ 3 ] stringy = '\x00' }")).
-Eval vm_compute in ("<<<M1363>>>" ++ check (runes_of_ascii "packet o { repeat Logon uint8x , } options { asx =
-// c
-zchar[ 3 ] stringy = '\x00' }")).
-Eval vm_compute in ("<<<M832>>>" ++ check (runes_of_ascii "packet A {
-  match k as n {
-    [""a"", ""bb"", 007, ""d"", ""e"", 66] : B
-    2 : C
-  },
-}")).
-Eval vm_compute in ("<<<M1324>>>" ++ check (runes_of_ascii "MetaData body { i64 pack `it's` , } packet stringy
-// c
-{ int16 calculatedFrom , }")).
-Eval vm_compute in ("<<<M829>>>" ++ check (runes_of_ascii "packet A {
-  match k as n {
-    [1, 22, ""c c"", 4, 5, ""f""] : B,
-    2 : C
-  },
-}")).
-Eval vm_compute in ("<<<M1934>>>" ++ check (runes_of_ascii "packet Inner {
+Eval vm_compute in ("<<<M1458>>>" ++ check (runes_of_ascii "packet
+T
+{ match repeatCount as	calculatedFrom
+{ [65535 65535 ]	: As	,
+} ,}
+// trailing space 
+")).
+Eval vm_compute in ("<<<M1282>>>" ++ check (runes_of_ascii "
+options
+    {
+    Logon
+= char[] ;
+    falsey
+// " ++ [27880; 37322]%N ++ runes_of_ascii "
+// 50% %s
+= false ; leftPad
+=	f32
+    }
+")).
+Eval vm_compute in ("<<<M445>>>" ++ check (runes_of_ascii "options {
+BodyLength	=	'0'lengthOf//	t
+=""abc"";
+} packet
+    u8x { tag zchar ,/// triple
+} //")).
+Eval vm_compute in ("<<<M1500>>>" ++ check (runes_of_ascii "packet
+T
+{ match repeatCount as	calculatedFrom
+{ [6$5535 ]	: As	,
+} ,}
+// trailing space 
+")).
+Eval vm_compute in ("<<<M1454>>>" ++ check (runes_of_ascii "packet
+T
+{ match repeatCount as	calculatedFrom
+{ 65535[ ]	: As	,
+} ,}
+// trailing space 
+")).
+Eval vm_compute in ("<<<M1475>>>" ++ check (runes_of_ascii "packet
+T
+{ match repeatCount as	calculatedFrom
+{ [65535 ]	: )	,
+} ,}
+// trailing space 
+")).
+Eval vm_compute in ("<<<M1738>>>" ++ check (runes_of_ascii "options{  lengthOf =//x
+i16 f32
+    BodyLength = 0 ; pack
+= false;
+    A = char[ 3 ] }")).
+Eval vm_compute in ("<<<M1813>>>" ++ check (runes_of_ascii "options{  lengthOf =//x
+i16;
+    BodyLength = 0 ; pack
+= false;
+    A = char[ 3 ] }< ")).
+Eval vm_compute in ("<<<M4210>>>" ++ check (runes_of_ascii "// top
+root packet P {
+    // c3a
+    // c3b
+    char c,// c6
+    u8 x,// c9
+}
+// c10")).
+Eval vm_compute in ("<<<M3971>>>" ++ check (runes_of_ascii "packet order_item {
     u8 a,
 }
 
-root packet P {
-    Inner ref_obj,
+root packet new_order {
+    order_item,
     u8 x,
 }")).
-Eval vm_compute in ("<<<M1646>>>" ++ check (runes_of_ascii "  // top
-
-MetaData 
-  // c0
-		o 
-	// c1
-		{
-// c2
-  } 
-	    // c3")).
-Eval vm_compute in ("<<<M2093>>>" ++ check (runes_of_ascii "root
-    packet
-
-    i8i8  {
-	@lengthOf(	Packet 
-) u32 
-u8x
-,}
+Eval vm_compute in ("<<<M2000>>>" ++ check (runes_of_ascii "
+packet leftPad {
+@leftPad( '0')
+u32
+i64_ `100% of %d` ,repeat// 50% %s
+i8 chars")).
+Eval vm_compute in ("<<<M3244>>>" ++ check (runes_of_ascii "
+// c
+MetaData Foo { zchar[ 0 ] matchKey , } options { lengthOf = i32 u = 00 ; }")).
+Eval vm_compute in ("<<<M3253>>>" ++ check (runes_of_ascii "MetaData Foo { zchar[ 0 // c
+] matchKey , } options { lengthOf = i32 u = 00 ; }")).
+Eval vm_compute in ("<<<M265>>>" ++ check (runes_of_ascii "  packet
+u8x// 50% %s
+{ @rightPad
+    (
+    ' ' ) repeat MetaDataX`it's`	, }
 ")).
-Eval vm_compute in ("<<<M123>>>" ++ check (runes_of_ascii "
-packet crc	{ u32 T@lengthOf( x ) `crlf
-line` ,// a // b
+Eval vm_compute in ("<<<M3857>>>" ++ check (runes_of_ascii "packet A {
+    match k as n {
+        [1, ""bb""] : B,
+        2 : C,
+    },
 }")).
-Eval vm_compute in ("<<<M1284>>>" ++ check (runes_of_ascii "packet x { @rightPad ( // c
-) repeat roots Logon `doc` , }")).
-Eval vm_compute in ("<<<M1088>>>" ++ check (runes_of_ascii "packet A { repeat // a
- B // b
- b // c
- `d` // e
- , }")).
-Eval vm_compute in ("<<<M940>>>" ++ check (runes_of_ascii "MetaData M {
+Eval vm_compute in ("<<<M2985>>>" ++ check (runes_of_ascii "packet A { Inner { match k as n { [1,22,007,4,5,66,7,8,9,10] : B, }, }, }")).
+Eval vm_compute in ("<<<M3064>>>" ++ check (runes_of_ascii "MetaData M {
+    u8 x `100% of %s %d %v`,
+    T t `100% of %s %d %v`,
+}")).
+Eval vm_compute in ("<<<M4203>>>" ++ check (runes_of_ascii "MetaData repeatCount {
+    metadata Pad `say ""hi""`,
+    //
+    //	t
+}")).
+Eval vm_compute in ("<<<M2671>>>" ++ check (runes_of_ascii "options { a = char[3]; b = zchar[0] c = char[] d = string e = u8 }")).
+Eval vm_compute in ("<<<M1990>>>" ++ check (runes_of_ascii "
+packet leftPad {
+@leftPad( '0')
+u32
+i64_ `100% of %d` ,repeat")).
+Eval vm_compute in ("<<<M40>>>" ++ check (runes_of_ascii "MetaData
+T {crc /// triple
+u8x `" ++ [233]%N ++ runes_of_ascii "` , } // `tick` ""quote"" 'q'")).
+Eval vm_compute in ("<<<M3309>>>" ++ check (runes_of_ascii "packet u8x { } MetaData crc { char[ 4294967296 ] // c
+Foo , }")).
+Eval vm_compute in ("<<<M2907>>>" ++ check (runes_of_ascii "packet A { Inner { match k as n { [1,22,007,4] : B, }, }, }")).
+Eval vm_compute in ("<<<M3025>>>" ++ check (runes_of_ascii "packet A {
+    B b `
+`,
+    B `
+`,
+    repeat B bs `
+`,
+}")).
+Eval vm_compute in ("<<<M2862>>>" ++ check (runes_of_ascii "007 zchar[ uint64 MetaData ( ] uint32 i16 0123456789 ;")).
+Eval vm_compute in ("<<<M3058>>>" ++ check (runes_of_ascii "MetaData M {
+    u8 x `tab
+	x`,
+    T t `tab
+	x`,
+}")).
+Eval vm_compute in ("<<<M1198>>>" ++ check (runes_of_ascii "packet Logon
+    {repeat zchar[ 007] zchar//
+,
+}")).
+Eval vm_compute in ("<<<M58>>>" ++ check (runes_of_ascii "packet Header { repeat int32 options1
+, } //x")).
+Eval vm_compute in ("<<<M1177>>>" ++ check (runes_of_ascii "// packet A { u8 x, }
+packet
+u128 //x
+{ }
+")).
+Eval vm_compute in ("<<<M2026>>>" ++ check (runes_of_ascii "
+packet leftPad {
+@leftPad( '0')
+u32
+i6")).
+Eval vm_compute in ("<<<M3942>>>" ++ check (runes_of_ascii "packet
+
+A {
+
+u8
+	x
+
+    `tab
+	x` , }
+
+")).
+Eval vm_compute in ("<<<M4106>>>" ++ check (runes_of_ascii "options {
+    BodyLength = 4294967296
+}")).
+Eval vm_compute in ("<<<M2396>>>" ++ check (runes_of_ascii "MetaData
+Foo {/ Header //
+pack ,	} 	 ")).
+Eval vm_compute in ("<<<M3030>>>" ++ check (runes_of_ascii "packet A {
+    u8 x `a
+    b
+  c`,
+}")).
+Eval vm_compute in ("<<<M46>>>" ++ check (runes_of_ascii "MetaData metadata {u8
+tag
+    ,
+}")).
+Eval vm_compute in ("<<<M2765>>>" ++ check ([65533; 65533]%N ++ runes_of_ascii "@" ++ [65533]%N ++ runes_of_ascii "f" ++ [65533; 65533]%N ++ runes_of_ascii "wf" ++ [65533; 65533; 65533]%N ++ runes_of_ascii "=" ++ [65533]%N ++ runes_of_ascii "<rI" ++ [657]%N ++ runes_of_ascii "m" ++ [65533; 990; 30; 65533]%N ++ runes_of_ascii "Aw" ++ [65533]%N ++ runes_of_ascii "H" ++ [65533]%N ++ runes_of_ascii "U" ++ [65533]%N ++ runes_of_ascii "3" ++ [12; 65533]%N)).
+Eval vm_compute in ("<<<M4154>>>" ++ check (runes_of_ascii "packet A {
+    u8 x `d" ++ [6158]%N ++ runes_of_ascii "`,// c" ++ [6158]%N ++ runes_of_ascii "
+}")).
+Eval vm_compute in ("<<<M2738>>>" ++ check (runes_of_ascii "/NA%F2R3wuU,@[c Ab@wM8l%L?l%F^")).
+Eval vm_compute in ("<<<M3036>>>" ++ check (runes_of_ascii "packet A {
     u8 x `a
 
 b`,
-    T t `a
-
-b`,
 }")).
-Eval vm_compute in ("<<<M1885>>>" ++ check (runes_of_ascii "// c
-root packet u128 {
-    chars `it's`,
-}")).
-Eval vm_compute in ("<<<M1112>>>" ++ check (runes_of_ascii "root packet u128 { chars `it's` , // c
-}")).
-Eval vm_compute in ("<<<M71>>>" ++ check (runes_of_ascii "// " ++ [27880; 37322]%N ++ runes_of_ascii "
-packet  matchKey{
-    }
+Eval vm_compute in ("<<<M3347>>>" ++ check (runes_of_ascii "options { u8x =
 // c
-")).
-Eval vm_compute in ("<<<M750>>>" ++ check (runes_of_ascii "int8 match uint64 } options u32")).
-Eval vm_compute in ("<<<M936>>>" ++ check (runes_of_ascii "packet A {
-    u8 x `a
-
-b`,
-}")).
-Eval vm_compute in ("<<<M1166>>>" ++ check (runes_of_ascii "root
-// c
-packet pack { }")).
-Eval vm_compute in ("<<<M268>>>" ++ check (runes_of_ascii "  packet
-chars	{ }
-")).
-Eval vm_compute in ("<<<M1006>>>" ++ check (runes_of_ascii "packet A {
+false }")).
+Eval vm_compute in ("<<<M1171>>>" ++ check (runes_of_ascii "root packet MetaDataX  { }")).
+Eval vm_compute in ("<<<M3905>>>" ++ check (runes_of_ascii "root packet crc {
 }
-// c" ++ [8232]%N)).
-Eval vm_compute in ("<<<M999>>>" ++ check (runes_of_ascii "packet A {
-}// c" ++ [8202]%N)).
-Eval vm_compute in ("<<<M492>>>" ++ check (runes_of_ascii "root packet")).
-Eval vm_compute in ("<<<M1005>>>" ++ check (runes_of_ascii "// c" ++ [8232]%N)).
+// " ++ [27880; 37322]%N)).
+Eval vm_compute in ("<<<M2677>>>" ++ check (runes_of_ascii "options { packet = 1; }")).
+Eval vm_compute in ("<<<M1107>>>" ++ check (runes_of_ascii "
+packet  stringy {
+}
+")).
+Eval vm_compute in ("<<<M4044>>>" ++ check (runes_of_ascii "options
+
+    {	}
+
+")).
+Eval vm_compute in ("<<<M200>>>" ++ check (runes_of_ascii "packet uint8x { }
+")).
+Eval vm_compute in ("<<<M3138>>>" ++ check (runes_of_ascii "// c" ++ [8239]%N ++ runes_of_ascii "
+packet A {
+}")).
+Eval vm_compute in ("<<<M2664>>>" ++ check (runes_of_ascii "options { a = 1 }")).
+Eval vm_compute in ("<<<M1940>>>" ++ check (runes_of_ascii "
+packet leftPad")).
+Eval vm_compute in ("<<<M1690>>>" ++ check (runes_of_ascii "// 50% %s
+pack")).
+Eval vm_compute in ("<<<M2566>>>" ++ check (runes_of_ascii """" ++ [233]%N ++ runes_of_ascii """ `" ++ [21517]%N ++ runes_of_ascii "` // " ++ [252]%N)).
+Eval vm_compute in ("<<<M1426>>>" ++ check (runes_of_ascii "packet
+T")).
+Eval vm_compute in ("<<<M2444>>>" ++ check (runes_of_ascii "zchar[]")).
+Eval vm_compute in ("<<<M2741>>>" ++ check ([31]%N ++ runes_of_ascii "0
+a" ++ [1894; 65533]%N)).
+Eval vm_compute in ("<<<M2856>>>" ++ check (runes_of_ascii "Mnb]/")).
+Eval vm_compute in ("<<<M2524>>>" ++ check (runes_of_ascii """//""")).
+Eval vm_compute in ("<<<M2535>>>" ++ check (runes_of_ascii "007")).
+Eval vm_compute in ("<<<M2543>>>" ++ check (runes_of_ascii "__")).
